@@ -1,1908 +1,3 @@
-import BddVerif.Gen.Algo
-import BddVerif.Gen.RustShimIO
-import BddVerif.Gen.OpTables
-/-!
-GENERATED by tools/rust2lean.py from the Rust sources of the library — DO NOT EDIT; regenerated on every run.
-Second batch of translated functions (same conventions as Gen/Algo.lean, whose definitions it reuses).
-`crate::op_function::{and,or,…}` are the regenerated tables `Gen.and_`, `Gen.or_`, … of Gen/OpTables.lean;
-a `rand::Rng` argument is the list of recorded coin flips (`Rust.genBool`).
--/
-set_option linter.unusedVariables false
-set_option linter.constructorNameAsVariable false
-namespace B.Gen.Algo2
-open B B.Gen B.Gen.Algo
-attribute [local instance 10000] Rust.monadOutcomeInline
-
-/-! translated functions (Rust name ↦ Lean name, kind, generated lines):
-  BddValuation::set ↦ BddValuation_set  [monadic, 6 lines]  src/_impl_bdd_valuation.rs:35
-  Bdd::first_valuation ↦ Bdd_first_valuation  [monadic+fuel, 26 lines]  src/_impl_bdd/_impl_valuation_utils.rs:11
-  BddValuation::all_true ↦ BddValuation_all_true  [pure, 3 lines]  src/_impl_bdd_valuation.rs:19
-  BddValuation::clear ↦ BddValuation_clear  [monadic, 6 lines]  src/_impl_bdd_valuation.rs:30
-  Bdd::last_valuation ↦ Bdd_last_valuation  [monadic+fuel, 26 lines]  src/_impl_bdd/_impl_valuation_utils.rs:34
-  Bdd::first_clause ↦ Bdd_first_clause  [monadic+fuel, 28 lines]  src/_impl_bdd/_impl_valuation_utils.rs:55
-  Bdd::last_clause ↦ Bdd_last_clause  [monadic+fuel, 32 lines]  src/_impl_bdd/_impl_valuation_utils.rs:77
-  Bdd::most_positive_valuation ↦ Bdd_most_positive_valuation  [monadic+fuel, 64 lines]  src/_impl_bdd/_impl_valuation_utils.rs:105
-  Bdd::most_negative_valuation ↦ Bdd_most_negative_valuation  [monadic+fuel, 64 lines]  src/_impl_bdd/_impl_valuation_utils.rs:159
-  Bdd::most_fixed_clause ↦ Bdd_most_fixed_clause  [monadic+fuel, 60 lines]  src/_impl_bdd/_impl_valuation_utils.rs:212
-  Bdd::most_free_clause ↦ Bdd_most_free_clause  [monadic+fuel, 66 lines]  src/_impl_bdd/_impl_valuation_utils.rs:258
-  Bdd::necessary_clause ↦ Bdd_necessary_clause  [monadic, 111 lines]  src/_impl_bdd/_impl_valuation_utils.rs:379
-  Bdd::random_valuation ↦ Bdd_random_valuation  [monadic, 47 lines]  src/_impl_bdd/_impl_valuation_utils.rs:310
-  Bdd::random_clause ↦ Bdd_random_clause  [monadic+fuel, 41 lines]  src/_impl_bdd/_impl_valuation_utils.rs:348
-  Bdd::and ↦ Bdd_and  [monadic+fuel, 4 lines]  src/_impl_bdd/_impl_boolean_ops.rs:30
-  Bdd::or ↦ Bdd_or  [monadic+fuel, 4 lines]  src/_impl_bdd/_impl_boolean_ops.rs:36
-  Bdd::imp ↦ Bdd_imp  [monadic+fuel, 4 lines]  src/_impl_bdd/_impl_boolean_ops.rs:42
-  Bdd::iff ↦ Bdd_iff  [monadic+fuel, 4 lines]  src/_impl_bdd/_impl_boolean_ops.rs:48
-  Bdd::xor ↦ Bdd_xor  [monadic+fuel, 4 lines]  src/_impl_bdd/_impl_boolean_ops.rs:54
-  Bdd::and_not ↦ Bdd_and_not  [monadic+fuel, 4 lines]  src/_impl_bdd/_impl_boolean_ops.rs:60
-  Bdd::binary_op_with_exists ↦ Bdd_binary_op_with_exists  [monadic+fuel, 8 lines]  src/_impl_bdd/_impl_nested_ops.rs:28
-  Bdd::binary_op_with_for_all ↦ Bdd_binary_op_with_for_all  [monadic+fuel, 8 lines]  src/_impl_bdd/_impl_nested_ops.rs:10
-  Bdd::var_exists ↦ Bdd_var_exists  [monadic+fuel, 4 lines]  src/_impl_bdd/_impl_relation_ops.rs:19
-  Bdd::var_for_all ↦ Bdd_var_for_all  [monadic+fuel, 4 lines]  src/_impl_bdd/_impl_relation_ops.rs:32
-  Bdd::exists ↦ Bdd_exists  [monadic+fuel, 4 lines]  src/_impl_bdd/_impl_relation_ops.rs:56
-  Bdd::for_all ↦ Bdd_for_all  [monadic+fuel, 4 lines]  src/_impl_bdd/_impl_relation_ops.rs:64
-  Bdd::var_project ↦ Bdd_var_project  [monadic+fuel, 4 lines]  src/_impl_bdd/_impl_relation_ops.rs:11
-  Bdd::project ↦ Bdd_project  [monadic+fuel, 4 lines]  src/_impl_bdd/_impl_relation_ops.rs:44
-  Bdd::var_select ↦ Bdd_var_select  [monadic+fuel, 4 lines]  src/_impl_bdd/_impl_relation_ops.rs:141
-  Bdd::select ↦ Bdd_select  [monadic+fuel, 8 lines]  src/_impl_bdd/_impl_relation_ops.rs:148
-  sorted ↦ sorted  [pure, 6 lines]  src/_impl_bdd/_impl_relation_ops.rs:172
-  Bdd::var_pick ↦ Bdd_var_pick  [monadic+fuel, 4 lines]  src/_impl_bdd/_impl_relation_ops.rs:77
-  Bdd::var_pick_random ↦ Bdd_var_pick_random  [monadic+fuel, 9 lines]  src/_impl_bdd/_impl_relation_ops.rs:92
-  Bdd::pick::r_pick ↦ Bdd_pick__r_pick  [monadic+fuel, 15 lines]  src/_impl_bdd/_impl_relation_ops.rs:112
-  Bdd::pick ↦ Bdd_pick  [monadic+fuel, 4 lines]  src/_impl_bdd/_impl_relation_ops.rs:111
-  Bdd::pick_random::r_pick ↦ Bdd_pick_random__r_pick  [monadic+fuel, 20 lines]  src/_impl_bdd/_impl_relation_ops.rs:127
-  Bdd::pick_random ↦ Bdd_pick_random  [monadic+fuel, 7 lines]  src/_impl_bdd/_impl_relation_ops.rs:126
-  Bdd::set_num_vars ↦ Bdd_set_num_vars  [monadic, 18 lines]  src/_impl_bdd/_impl_util.rs:32
-  Bdd::rename_variables ↦ Bdd_rename_variables  [monadic, 36 lines]  src/_impl_bdd/_impl_util.rs:56
-  Bdd::rename_variable ↦ Bdd_rename_variable  [monadic, 36 lines]  src/_impl_bdd/_impl_util.rs:96
-  BddVariable::to_index ↦ BddVariable_to_index  [pure, 3 lines]  src/_impl_bdd_variable.rs:22
-  BddVariable::from_index ↦ BddVariable_from_index  [monadic, 4 lines]  src/_impl_bdd_variable.rs:27
-  Bdd::substitute ↦ Bdd_substitute  [monadic+fuel, 63 lines]  src/_impl_bdd/_impl_util.rs:572
-  Bdd::size_per_variable ↦ Bdd_size_per_variable  [monadic, 18 lines]  src/_impl_bdd/_impl_util.rs:528
-  BddVariableSet::new_anonymous ↦ BddVariableSet_new_anonymous  [monadic, 8 lines]  src/_impl_bdd_variable_set.rs:10
-  BddVariableSet::var_by_name ↦ BddVariableSet_var_by_name  [pure, 3 lines]  src/_impl_bdd_variable_set.rs:71
-  BddVariableSet::name_of ↦ BddVariableSet_name_of  [monadic, 4 lines]  src/_impl_bdd_variable_set.rs:95
-  BddVariableSet::mk_true ↦ BddVariableSet_mk_true  [pure, 3 lines]  src/_impl_bdd_variable_set.rs:100
-  BddVariableSet::mk_conjunctive_clause ↦ BddVariableSet_mk_conjunctive_clause  [monadic, 28 lines]  src/_impl_bdd_variable_set.rs:160
-  BddPartialValuation::is_empty ↦ BddPartialValuation_is_empty  [pure, 3 lines]  src/_impl_bdd_partial_valuation.rs:14
-  BddVariableSet::mk_false ↦ BddVariableSet_mk_false  [pure, 3 lines]  src/_impl_bdd_variable_set.rs:105
-  BddVariableSet::mk_disjunctive_clause ↦ BddVariableSet_mk_disjunctive_clause  [monadic, 31 lines]  src/_impl_bdd_variable_set.rs:194
-  BddVariableSet::mk_not_var ↦ BddVariableSet_mk_not_var  [pure, 4 lines]  src/_impl_bdd_variable_set.rs:122
-  BddVariableSet::mk_sat_up_to_k ↦ BddVariableSet_mk_sat_up_to_k  [monadic+fuel, 26 lines]  src/_impl_bdd_variable_set.rs:243
-  BddVariableSet::mk_sat_exactly_k ↦ BddVariableSet_mk_sat_exactly_k  [monadic+fuel, 26 lines]  src/_impl_bdd_variable_set.rs:274
-  BddVariableSet::transfer_from ↦ BddVariableSet_transfer_from  [monadic, 48 lines]  src/_impl_bdd_variable_set.rs:317
-  BddVariableSet::mk_var ↦ BddVariableSet_mk_var  [pure, 4 lines]  src/_impl_bdd_variable_set.rs:113
-  BddVariableSet::mk_literal ↦ BddVariableSet_mk_literal  [pure, 4 lines]  src/_impl_bdd_variable_set.rs:130
-  BddVariableSet::mk_var_by_name ↦ BddVariableSet_mk_var_by_name  [monadic, 8 lines]  src/_impl_bdd_variable_set.rs:138
-  BddVariableSet::mk_not_var_by_name ↦ BddVariableSet_mk_not_var_by_name  [monadic, 8 lines]  src/_impl_bdd_variable_set.rs:147
-  Bdd::mk_dnf::_rec ↦ Bdd_mk_dnf___rec  [monadic+fuel, 65 lines]  src/_impl_bdd/_impl_dnf.rs:11
-  Bdd::mk_dnf ↦ Bdd_mk_dnf  [monadic+fuel, 6 lines]  src/_impl_bdd/_impl_dnf.rs:10
-  BddVariableSet::num_vars ↦ BddVariableSet_num_vars  [pure, 3 lines]  src/_impl_bdd_variable_set.rs:65
-  Bdd::mk_cnf::_rec ↦ Bdd_mk_cnf___rec  [monadic+fuel, 65 lines]  src/_impl_bdd/_impl_cnf.rs:10
-  Bdd::mk_cnf ↦ Bdd_mk_cnf  [monadic+fuel, 6 lines]  src/_impl_bdd/_impl_cnf.rs:9
-  BddVariableSet::mk_dnf ↦ BddVariableSet_mk_dnf  [monadic+fuel, 4 lines]  src/_impl_bdd_variable_set.rs:235
-  BddVariableSet::mk_cnf ↦ BddVariableSet_mk_cnf  [monadic+fuel, 4 lines]  src/_impl_bdd_variable_set.rs:228
-  Bdd::_to_optimized_dnf::_rec ↦ Bdd__to_optimized_dnf___rec  [monadic+fuel, 120 lines]  src/_impl_bdd/_impl_dnf.rs:215
-  Bdd::_to_optimized_dnf ↦ Bdd__to_optimized_dnf  [monadic+fuel, 24 lines]  src/_impl_bdd/_impl_dnf.rs:204
-  Bdd::to_optimized_dnf ↦ Bdd_to_optimized_dnf  [monadic+fuel, 4 lines]  src/_impl_bdd/_impl_dnf.rs:198
-  Bdd::cmp_size ↦ Bdd_cmp_size  [pure, 3 lines]  src/_impl_bdd/_impl_sort.rs:8
-  Bdd::cmp_cardinality ↦ Bdd_cmp_cardinality  [monadic+fuel, 4 lines]  src/_impl_bdd/_impl_sort.rs:16
-  Bdd::cmp_cardinality_strict ↦ Bdd_cmp_cardinality_strict  [monadic+fuel, 9 lines]  src/_impl_bdd/_impl_sort.rs:22
-  Bdd::cmp_implies ↦ Bdd_cmp_implies  [monadic+fuel, 32 lines]  src/_impl_bdd/_impl_sort.rs:37
-  Bdd::cmp_structural ↦ Bdd_cmp_structural  [pure, 5 lines]  src/_impl_bdd/_impl_sort.rs:68
-  BddPartialValuation::cardinality ↦ BddPartialValuation_cardinality  [monadic, 4 lines]  src/_impl_bdd_partial_valuation.rs:19
-  BddPartialValuation::last_fixed_variable ↦ BddPartialValuation_last_fixed_variable  [monadic, 10 lines]  src/_impl_bdd_partial_valuation.rs:25
-  BddPartialValuation::extends ↦ BddPartialValuation_extends  [monadic, 17 lines]  src/_impl_bdd_partial_valuation.rs:97
-  BddPartialValuation::eq ↦ BddPartialValuation_eq  [monadic, 24 lines]  src/_impl_bdd_partial_valuation.rs:144
-  BddPartialValuation::hash ↦ BddPartialValuation_hash  [monadic, 15 lines]  src/_impl_bdd_partial_valuation.rs:168
-  BddPartialValuation::from ↦ BddPartialValuation_from  [pure, 3 lines]  src/_impl_bdd_partial_valuation.rs:119
-  BddValuation::extends ↦ BddValuation_extends  [monadic, 17 lines]  src/_impl_bdd_valuation.rs:78
-  BddValuation::to_values ↦ BddValuation_to_values  [monadic, 14 lines]  src/_impl_bdd_valuation.rs:51
-  BddValuation::try_from ↦ BddValuation_try_from  [monadic, 22 lines]  src/_impl_bdd_valuation.rs:209
-  Bdd::from ↦ Bdd_from  [monadic, 28 lines]  src/_impl_bdd_valuation.rs:183
-  BddVariable::to_le_bytes ↦ BddVariable_to_le_bytes  [pure, 3 lines]  src/_impl_bdd_variable.rs:12
-  BddPointer::to_le_bytes ↦ BddPointer_to_le_bytes  [pure, 3 lines]  src/_impl_bdd_pointer.rs:74
-  Bdd::write_as_bytes ↦ Bdd_write_as_bytes  [monadic, 28 lines]  src/_impl_bdd/_impl_serialisation.rs:42
-  BddVariable::from_le_bytes ↦ BddVariable_from_le_bytes  [pure, 3 lines]  src/_impl_bdd_variable.rs:17
-  BddPointer::from_le_bytes ↦ BddPointer_from_le_bytes  [pure, 3 lines]  src/_impl_bdd_pointer.rs:79
-  Bdd::read_as_bytes ↦ Bdd_read_as_bytes  [monadic+fuel, 28 lines]  src/_impl_bdd/_impl_serialisation.rs:52
-  Bdd::to_bytes ↦ Bdd_to_bytes  [monadic, 10 lines]  src/_impl_bdd/_impl_serialisation.rs:84
-  Bdd::from_bytes ↦ Bdd_from_bytes  [monadic+fuel, 7 lines]  src/_impl_bdd/_impl_serialisation.rs:92
--/
-
-/-- `BddValuation::set` — src/_impl_bdd_valuation.rs:35 (returns the updated `&mut` arguments: self_) -/
-def BddValuation_set (self_ : Array Bool) (variable_ : Nat) : Outcome (Array Bool) := do
-  let mut self_ := self_
-  -- L36: self.0[variable.0 as usize] = true;
-  self_ := (← Rust.setIdx self_ variable_ true)
-  pure self_
-
-/-- `Bdd::first_valuation` — src/_impl_bdd/_impl_valuation_utils.rs:11 -/
-def Bdd_first_valuation (fuel : Nat) (self_ : Arr) : Outcome (Option (Array Bool)) := do
-  -- L12: if self.is_false() {
-  if Bdd_is_false self_ then
-    -- L13: return None;
-    return none
-  -- L16: let mut valuation = BddValuation::all_false(self.num_vars());
-  let mut valuation : Array Bool := BddValuation_all_false (← Bdd_num_vars self_)
-  -- L17: let mut node = self.root_pointer();
-  let mut node := (← Bdd_root_pointer self_)
-  -- L18: while !node.is_terminal() {
-  for _ in [0:fuel] do
-    if !(!(BddPointer_is_terminal node)) then break
-    -- L19: if self.low_link_of(node).is_zero() {
-    if BddPointer_is_zero (← Bdd_low_link_of self_ node) then
-      -- L20: valuation.set(self.var_of(node));
-      valuation := (← BddValuation_set valuation (← Bdd_var_of self_ node))
-      -- L21: node = self.high_link_of(node);
-      node := (← Bdd_high_link_of self_ node)
-    else
-      -- L23: node = self.low_link_of(node);
-      node := (← Bdd_low_link_of self_ node)
-  -- fuel exhausted while the loop of L18 could still run?
-  if !(BddPointer_is_terminal node) then Outcome.panic "fuel"
-  -- L27: Some(valuation)
-  pure (some valuation)
-
-/-- `BddValuation::all_true` — src/_impl_bdd_valuation.rs:19 -/
-def BddValuation_all_true (num_vars : Nat) : Array Bool :=
-  Rust.vecRepeat true num_vars
-
-/-- `BddValuation::clear` — src/_impl_bdd_valuation.rs:30 (returns the updated `&mut` arguments: self_) -/
-def BddValuation_clear (self_ : Array Bool) (variable_ : Nat) : Outcome (Array Bool) := do
-  let mut self_ := self_
-  -- L31: self.0[variable.0 as usize] = false;
-  self_ := (← Rust.setIdx self_ variable_ false)
-  pure self_
-
-/-- `Bdd::last_valuation` — src/_impl_bdd/_impl_valuation_utils.rs:34 -/
-def Bdd_last_valuation (fuel : Nat) (self_ : Arr) : Outcome (Option (Array Bool)) := do
-  -- L35: if self.is_false() {
-  if Bdd_is_false self_ then
-    -- L36: return None;
-    return none
-  -- L39: let mut valuation = BddValuation::all_true(self.num_vars());
-  let mut valuation : Array Bool := BddValuation_all_true (← Bdd_num_vars self_)
-  -- L40: let mut node = self.root_pointer();
-  let mut node := (← Bdd_root_pointer self_)
-  -- L41: while !node.is_terminal() {
-  for _ in [0:fuel] do
-    if !(!(BddPointer_is_terminal node)) then break
-    -- L42: if self.high_link_of(node).is_zero() {
-    if BddPointer_is_zero (← Bdd_high_link_of self_ node) then
-      -- L43: valuation.clear(self.var_of(node));
-      valuation := (← BddValuation_clear valuation (← Bdd_var_of self_ node))
-      -- L44: node = self.low_link_of(node);
-      node := (← Bdd_low_link_of self_ node)
-    else
-      -- L46: node = self.high_link_of(node);
-      node := (← Bdd_high_link_of self_ node)
-  -- fuel exhausted while the loop of L41 could still run?
-  if !(BddPointer_is_terminal node) then Outcome.panic "fuel"
-  -- L50: Some(valuation)
-  pure (some valuation)
-
-/-- `Bdd::first_clause` — src/_impl_bdd/_impl_valuation_utils.rs:55 -/
-def Bdd_first_clause (fuel : Nat) (self_ : Arr) : Outcome (Option (Array (Option Bool))) := do
-  -- L56: if self.is_false() {
-  if Bdd_is_false self_ then
-    -- L57: return None;
-    return none
-  -- L60: let mut valuation = BddPartialValuation::empty();
-  let mut valuation : Array (Option Bool) := BddPartialValuation_empty
-  -- L61: let mut node = self.root_pointer();
-  let mut node := (← Bdd_root_pointer self_)
-  -- L62: while !node.is_terminal() {
-  for _ in [0:fuel] do
-    if !(!(BddPointer_is_terminal node)) then break
-    -- L63: if self.low_link_of(node).is_zero() {
-    if BddPointer_is_zero (← Bdd_low_link_of self_ node) then
-      -- L64: valuation.set_value(self.var_of(node), true);
-      valuation := Rust.pvalSetValue valuation (← Bdd_var_of self_ node) true
-      -- L65: node = self.high_link_of(node);
-      node := (← Bdd_high_link_of self_ node)
-    else
-      -- L67: valuation.set_value(self.var_of(node), false);
-      valuation := Rust.pvalSetValue valuation (← Bdd_var_of self_ node) false
-      -- L68: node = self.low_link_of(node);
-      node := (← Bdd_low_link_of self_ node)
-  -- fuel exhausted while the loop of L62 could still run?
-  if !(BddPointer_is_terminal node) then Outcome.panic "fuel"
-  -- L72: Some(valuation)
-  pure (some valuation)
-
-/-- `Bdd::last_clause` — src/_impl_bdd/_impl_valuation_utils.rs:77 -/
-def Bdd_last_clause (fuel : Nat) (self_ : Arr) : Outcome (Option (Array (Option Bool))) := do
-  -- L78: if self.is_false() {
-  if Bdd_is_false self_ then
-    -- L79: return None;
-    return none
-  -- L82: if self.is_false() {
-  if Bdd_is_false self_ then
-    -- L83: return None;
-    return none
-  -- L86: let mut valuation = BddPartialValuation::empty();
-  let mut valuation : Array (Option Bool) := BddPartialValuation_empty
-  -- L87: let mut node = self.root_pointer();
-  let mut node := (← Bdd_root_pointer self_)
-  -- L88: while !node.is_terminal() {
-  for _ in [0:fuel] do
-    if !(!(BddPointer_is_terminal node)) then break
-    -- L89: if self.high_link_of(node).is_zero() {
-    if BddPointer_is_zero (← Bdd_high_link_of self_ node) then
-      -- L90: valuation.set_value(self.var_of(node), false);
-      valuation := Rust.pvalSetValue valuation (← Bdd_var_of self_ node) false
-      -- L91: node = self.low_link_of(node);
-      node := (← Bdd_low_link_of self_ node)
-    else
-      -- L93: valuation.set_value(self.var_of(node), true);
-      valuation := Rust.pvalSetValue valuation (← Bdd_var_of self_ node) true
-      -- L94: node = self.high_link_of(node);
-      node := (← Bdd_high_link_of self_ node)
-  -- fuel exhausted while the loop of L88 could still run?
-  if !(BddPointer_is_terminal node) then Outcome.panic "fuel"
-  -- L98: Some(valuation)
-  pure (some valuation)
-
-/-- `Bdd::most_positive_valuation` — src/_impl_bdd/_impl_valuation_utils.rs:105 -/
-def Bdd_most_positive_valuation (fuel : Nat) (self_ : Arr) : Outcome (Option (Array Bool)) := do
-  -- L106: if self.is_false() {
-  if Bdd_is_false self_ then
-    -- L107: return None;
-    return none
-  -- L110: let mut cache = Vec::with_capacity(self.size());
-  let mut cache : Array (Nat × Bool) := Rust.vecWithCapacity (Bdd_size self_)
-  -- L111: cache.push((0, true));
-  cache := cache.push (0, true)
-  -- L112: cache.push((0, true));
-  cache := cache.push (0, true)
-  -- L114: for i in self.pointers().skip(2) {
-  for i in Rust.skip (Bdd_pointers self_) 2 do
-    -- L115: let i_var = self.var_of(i);
-    let i_var := (← Bdd_var_of self_ i)
-    -- L116: let low_link = self.low_link_of(i);
-    let low_link := (← Bdd_low_link_of self_ i)
-    -- L117: let high_link = self.high_link_of(i);
-    let high_link := (← Bdd_high_link_of self_ i)
-    -- L120: let low_link_diff =
-    let low_link_diff := ((← Rust.idx cache (BddPointer_to_index low_link)).1) + (← Rust.sub (← Rust.sub (← Bdd_var_of self_ low_link) i_var) 1)
-    -- L122: let high_link_diff =
-    let high_link_diff := ((← Rust.idx cache (BddPointer_to_index high_link)).1) + (← Rust.sub (← Rust.sub (← Bdd_var_of self_ high_link) i_var) 1)
-    -- L125: let result = if low_link.is_zero() && high_link.is_zero() {
-    let result ← if (BddPointer_is_zero low_link) && (BddPointer_is_zero high_link) then
-        -- L126: panic!("Non canonical BDD.")
-        Outcome.panic "Non canonical BDD."
-      else if BddPointer_is_zero low_link then
-        -- L128: (high_link_diff + 1, true)
-        pure (high_link_diff + 1, true)
-      else if BddPointer_is_zero high_link then
-        -- L130: (low_link_diff, false)
-        pure (low_link_diff, false)
-      else if decide ((high_link_diff + 1) > low_link_diff) then
-        -- L132: (high_link_diff + 1, true)
-        pure (high_link_diff + 1, true)
-      else
-        -- L134: (low_link_diff, false)
-        pure (low_link_diff, false)
-    -- L137: cache.push(result);
-    cache := cache.push result
-  -- L140: let mut valuation = BddValuation::all_true(self.num_vars());
-  let mut valuation : Array Bool := BddValuation_all_true (← Bdd_num_vars self_)
-  -- L141: let mut node = self.root_pointer();
-  let mut node := (← Bdd_root_pointer self_)
-  -- L142: while !node.is_terminal() {
-  for _ in [0:fuel] do
-    if !(!(BddPointer_is_terminal node)) then break
-    -- L143: let (_, child) = cache[node.to_index()];
-    let (_, child) := (← Rust.idx cache (BddPointer_to_index node))
-    -- L144: if child {
-    if child then
-      -- L145: node = self.high_link_of(node);
-      node := (← Bdd_high_link_of self_ node)
-    else
-      -- L147: valuation.clear(self.var_of(node));
-      valuation := (← BddValuation_clear valuation (← Bdd_var_of self_ node))
-      -- L148: node = self.low_link_of(node);
-      node := (← Bdd_low_link_of self_ node)
-  -- fuel exhausted while the loop of L142 could still run?
-  if !(BddPointer_is_terminal node) then Outcome.panic "fuel"
-  -- L152: Some(valuation)
-  pure (some valuation)
-
-/-- `Bdd::most_negative_valuation` — src/_impl_bdd/_impl_valuation_utils.rs:159 -/
-def Bdd_most_negative_valuation (fuel : Nat) (self_ : Arr) : Outcome (Option (Array Bool)) := do
-  -- L160: if self.is_false() {
-  if Bdd_is_false self_ then
-    -- L161: return None;
-    return none
-  -- L164: let mut cache = Vec::with_capacity(self.size());
-  let mut cache : Array (Nat × Bool) := Rust.vecWithCapacity (Bdd_size self_)
-  -- L165: cache.push((0, true));
-  cache := cache.push (0, true)
-  -- L166: cache.push((0, true));
-  cache := cache.push (0, true)
-  -- L168: for i in self.pointers().skip(2) {
-  for i in Rust.skip (Bdd_pointers self_) 2 do
-    -- L169: let i_var = self.var_of(i);
-    let i_var := (← Bdd_var_of self_ i)
-    -- L170: let low_link = self.low_link_of(i);
-    let low_link := (← Bdd_low_link_of self_ i)
-    -- L171: let high_link = self.high_link_of(i);
-    let high_link := (← Bdd_high_link_of self_ i)
-    -- L174: let low_link_diff =
-    let low_link_diff := ((← Rust.idx cache (BddPointer_to_index low_link)).1) + (← Rust.sub (← Rust.sub (← Bdd_var_of self_ low_link) i_var) 1)
-    -- L176: let high_link_diff =
-    let high_link_diff := ((← Rust.idx cache (BddPointer_to_index high_link)).1) + (← Rust.sub (← Rust.sub (← Bdd_var_of self_ high_link) i_var) 1)
-    -- L179: let result = if low_link.is_zero() && high_link.is_zero() {
-    let result ← if (BddPointer_is_zero low_link) && (BddPointer_is_zero high_link) then
-        -- L180: panic!("Non canonical BDD.")
-        Outcome.panic "Non canonical BDD."
-      else if BddPointer_is_zero low_link then
-        -- L182: (high_link_diff, true)
-        pure (high_link_diff, true)
-      else if BddPointer_is_zero high_link then
-        -- L184: (low_link_diff + 1, false)
-        pure (low_link_diff + 1, false)
-      else if decide (high_link_diff > (low_link_diff + 1)) then
-        -- L186: (high_link_diff, true)
-        pure (high_link_diff, true)
-      else
-        -- L188: (low_link_diff + 1, false)
-        pure (low_link_diff + 1, false)
-    -- L191: cache.push(result);
-    cache := cache.push result
-  -- L194: let mut valuation = BddValuation::all_false(self.num_vars());
-  let mut valuation : Array Bool := BddValuation_all_false (← Bdd_num_vars self_)
-  -- L195: let mut node = self.root_pointer();
-  let mut node := (← Bdd_root_pointer self_)
-  -- L196: while !node.is_terminal() {
-  for _ in [0:fuel] do
-    if !(!(BddPointer_is_terminal node)) then break
-    -- L197: let (_, child) = cache[node.to_index()];
-    let (_, child) := (← Rust.idx cache (BddPointer_to_index node))
-    -- L198: if child {
-    if child then
-      -- L199: valuation.set(self.var_of(node));
-      valuation := (← BddValuation_set valuation (← Bdd_var_of self_ node))
-      -- L200: node = self.high_link_of(node);
-      node := (← Bdd_high_link_of self_ node)
-    else
-      -- L202: node = self.low_link_of(node);
-      node := (← Bdd_low_link_of self_ node)
-  -- fuel exhausted while the loop of L196 could still run?
-  if !(BddPointer_is_terminal node) then Outcome.panic "fuel"
-  -- L206: Some(valuation)
-  pure (some valuation)
-
-/-- `Bdd::most_fixed_clause` — src/_impl_bdd/_impl_valuation_utils.rs:212 -/
-def Bdd_most_fixed_clause (fuel : Nat) (self_ : Arr) : Outcome (Option (Array (Option Bool))) := do
-  -- L213: if self.is_false() {
-  if Bdd_is_false self_ then
-    -- L214: return None;
-    return none
-  -- L217: let mut cache: Vec<(usize, bool)> = Vec::with_capacity(self.size());
-  let mut cache : Array (Nat × Bool) := Rust.vecWithCapacity (Bdd_size self_)
-  -- L218: cache.push((0, true));
-  cache := cache.push (0, true)
-  -- L219: cache.push((0, true));
-  cache := cache.push (0, true)
-  -- L221: for i in self.pointers().skip(2) {
-  for i in Rust.skip (Bdd_pointers self_) 2 do
-    -- L222: let low_link = self.low_link_of(i);
-    let low_link := (← Bdd_low_link_of self_ i)
-    -- L223: let high_link = self.high_link_of(i);
-    let high_link := (← Bdd_high_link_of self_ i)
-    -- L225: let result = if low_link.is_zero() && high_link.is_zero() {
-    let result ← if (BddPointer_is_zero low_link) && (BddPointer_is_zero high_link) then
-        -- L226: panic!("Non canonical BDD.");
-        Outcome.panic "Non canonical BDD."
-      else if BddPointer_is_zero low_link then
-        -- L228: (cache[high_link.to_index()].0 + 1, true)
-        pure (((← Rust.idx cache (BddPointer_to_index high_link)).1) + 1, true)
-      else if BddPointer_is_zero high_link then
-        -- L230: (cache[low_link.to_index()].0 + 1, false)
-        pure (((← Rust.idx cache (BddPointer_to_index low_link)).1) + 1, false)
-      else
-        if Rust.ltNatBool (← Rust.idx cache (BddPointer_to_index low_link)) (← Rust.idx cache (BddPointer_to_index high_link)) then
-          -- L232: (cache[high_link.to_index()].0 + 1, true)
-          pure (((← Rust.idx cache (BddPointer_to_index high_link)).1) + 1, true)
-        else
-          -- L234: (cache[low_link.to_index()].0 + 1, false)
-          pure (((← Rust.idx cache (BddPointer_to_index low_link)).1) + 1, false)
-    -- L237: cache.push(result);
-    cache := cache.push result
-  -- L240: let mut valuation = BddPartialValuation::empty();
-  let mut valuation : Array (Option Bool) := BddPartialValuation_empty
-  -- L241: let mut node = self.root_pointer();
-  let mut node := (← Bdd_root_pointer self_)
-  -- L242: while !node.is_terminal() {
-  for _ in [0:fuel] do
-    if !(!(BddPointer_is_terminal node)) then break
-    -- L243: let (_, child) = cache[node.to_index()];
-    let (_, child) := (← Rust.idx cache (BddPointer_to_index node))
-    -- L244: valuation.set_value(self.var_of(node), child);
-    valuation := Rust.pvalSetValue valuation (← Bdd_var_of self_ node) child
-    -- L245: node = if child {
-    let v1__ ← if child then
-        -- L246: self.high_link_of(node)
-        pure (← Bdd_high_link_of self_ node)
-      else
-        -- L248: self.low_link_of(node)
-        pure (← Bdd_low_link_of self_ node)
-    node := v1__
-  -- fuel exhausted while the loop of L242 could still run?
-  if !(BddPointer_is_terminal node) then Outcome.panic "fuel"
-  -- L252: Some(valuation)
-  pure (some valuation)
-
-/-- `Bdd::most_free_clause` — src/_impl_bdd/_impl_valuation_utils.rs:258 -/
-def Bdd_most_free_clause (fuel : Nat) (self_ : Arr) : Outcome (Option (Array (Option Bool))) := do
-  -- L259: if self.is_false() {
-  if Bdd_is_false self_ then
-    -- L260: return None;
-    return none
-  -- L263: let mut cache: Vec<(u16, bool)> = Vec::with_capacity(self.size());
-  let mut cache : Array (Nat × Bool) := Rust.vecWithCapacity (Bdd_size self_)
-  -- L264: cache.push((0, true));
-  cache := cache.push (0, true)
-  -- L265: cache.push((0, true));
-  cache := cache.push (0, true)
-  -- L267: let mut cache: Vec<(usize, bool)> = Vec::with_capacity(self.size());
-  let mut cache_1 : Array (Nat × Bool) := Rust.vecWithCapacity (Bdd_size self_)
-  -- L268: cache.push((0, true));
-  cache_1 := cache_1.push (0, true)
-  -- L269: cache.push((0, true));
-  cache_1 := cache_1.push (0, true)
-  -- L271: for i in self.pointers().skip(2) {
-  for i in Rust.skip (Bdd_pointers self_) 2 do
-    -- L272: let low_link = self.low_link_of(i);
-    let low_link := (← Bdd_low_link_of self_ i)
-    -- L273: let high_link = self.high_link_of(i);
-    let high_link := (← Bdd_high_link_of self_ i)
-    -- L275: let result = if low_link.is_zero() && high_link.is_zero() {
-    let result ← if (BddPointer_is_zero low_link) && (BddPointer_is_zero high_link) then
-        -- L276: panic!("Non canonical BDD.");
-        Outcome.panic "Non canonical BDD."
-      else if BddPointer_is_zero low_link then
-        -- L278: (cache[high_link.to_index()].0 + 1, true)
-        pure (((← Rust.idx cache_1 (BddPointer_to_index high_link)).1) + 1, true)
-      else if BddPointer_is_zero high_link then
-        -- L280: (cache[low_link.to_index()].0 + 1, false)
-        pure (((← Rust.idx cache_1 (BddPointer_to_index low_link)).1) + 1, false)
-      else
-        if Rust.ltNatBool (← Rust.idx cache_1 (BddPointer_to_index high_link)) (← Rust.idx cache_1 (BddPointer_to_index low_link)) then
-          -- L282: (cache[high_link.to_index()].0 + 1, true)
-          pure (((← Rust.idx cache_1 (BddPointer_to_index high_link)).1) + 1, true)
-        else
-          -- L284: (cache[low_link.to_index()].0 + 1, false)
-          pure (((← Rust.idx cache_1 (BddPointer_to_index low_link)).1) + 1, false)
-    -- L287: cache.push(result);
-    cache_1 := cache_1.push result
-  -- L290: let mut valuation = BddPartialValuation::empty();
-  let mut valuation : Array (Option Bool) := BddPartialValuation_empty
-  -- L291: let mut node = self.root_pointer();
-  let mut node := (← Bdd_root_pointer self_)
-  -- L292: while !node.is_terminal() {
-  for _ in [0:fuel] do
-    if !(!(BddPointer_is_terminal node)) then break
-    -- L293: let (_, child) = cache[node.to_index()];
-    let (_, child) := (← Rust.idx cache_1 (BddPointer_to_index node))
-    -- L294: valuation.set_value(self.var_of(node), child);
-    valuation := Rust.pvalSetValue valuation (← Bdd_var_of self_ node) child
-    -- L295: node = if child {
-    let v1__ ← if child then
-        -- L296: self.high_link_of(node)
-        pure (← Bdd_high_link_of self_ node)
-      else
-        -- L298: self.low_link_of(node)
-        pure (← Bdd_low_link_of self_ node)
-    node := v1__
-  -- fuel exhausted while the loop of L292 could still run?
-  if !(BddPointer_is_terminal node) then Outcome.panic "fuel"
-  -- L302: Some(valuation)
-  pure (some valuation)
-
-/-- `Bdd::necessary_clause` — src/_impl_bdd/_impl_valuation_utils.rs:379 -/
-def Bdd_necessary_clause (self_ : Arr) : Outcome (Option (Array (Option Bool))) := do
-  -- L380: if self.is_false() {
-  if Bdd_is_false self_ then
-    -- L381: return None;
-    return none
-  -- L384: if self.is_true() {
-  if Bdd_is_true self_ then
-    -- L385: return Some(BddPartialValuation::empty());
-    return some BddPartialValuation_empty
-  -- L388: let mut seen_one = vec![false; usize::from(self.num_vars())];
-  let mut seen_one : Array Bool := Rust.vecRepeat false (← Bdd_num_vars self_)
-  -- L389: let mut seen_zero = vec![false; usize::from(self.num_vars())];
-  let mut seen_zero : Array Bool := Rust.vecRepeat false (← Bdd_num_vars self_)
-  -- L390: let mut seen_any = vec![false; usize::from(self.num_vars())];
-  let mut seen_any : Array Bool := Rust.vecRepeat false (← Bdd_num_vars self_)
-  -- L392: let top_var_id = usize::from(self.var_of(self.root_pointer()).0);
-  let top_var_id := (← Bdd_var_of self_ (← Bdd_root_pointer self_))
-  -- L393: for i in &mut seen_any[0..top_var_id] {
-  if decide (0 > top_var_id) || decide (top_var_id > seen_any.size) then Outcome.panic "slice index out of range"
-  for i1__ in [0:top_var_id] do
-    let mut i ← Rust.idx seen_any i1__
-    -- L394: *i = true;
-    i := true
-    seen_any := (← Rust.setIdx seen_any i1__ i)
-  -- L398: for id in self.pointers().skip(2) {
-  for id_ in Rust.skip (Bdd_pointers self_) 2 do
-    -- L399: let var_id = usize::from(self.var_of(id).0);
-    let var_id := (← Bdd_var_of self_ id_)
-    -- L400: let high_link = self.high_link_of(id);
-    let high_link := (← Bdd_high_link_of self_ id_)
-    -- L401: let low_link = self.low_link_of(id);
-    let low_link := (← Bdd_low_link_of self_ id_)
-    -- L403: if !(low_link.is_zero() || high_link.is_zero()) {
-    if !((BddPointer_is_zero low_link) || (BddPointer_is_zero high_link)) then
-      -- L404: seen_any[var_id] = true;
-      seen_any := (← Rust.setIdx seen_any var_id true)
-  -- L411: for var in 0..usize::from(self.num_vars()) {
-  for var in [0:(← Bdd_num_vars self_)] do
-    -- L412: if seen_any[var] {
-    if (← Rust.idx seen_any var) then
-      -- L413: continue;
-      continue
-    -- L416: for id in self.pointers().skip(2) {
-    for id_ in Rust.skip (Bdd_pointers self_) 2 do
-      -- L417: let high_link = self.high_link_of(id);
-      let high_link := (← Bdd_high_link_of self_ id_)
-      -- L418: let low_link = self.low_link_of(id);
-      let low_link := (← Bdd_low_link_of self_ id_)
-      -- L420: let var_id = usize::from(self.var_of(id).0);
-      let var_id := (← Bdd_var_of self_ id_)
-      -- L421: let high_link_var_id = usize::from(self.var_of(high_link).0);
-      let high_link_var_id := (← Bdd_var_of self_ high_link)
-      -- L422: let low_link_var_id = usize::from(self.var_of(low_link).0);
-      let low_link_var_id := (← Bdd_var_of self_ low_link)
-      -- L424: let range = if high_link.is_zero() {
-      let range : Array Nat ← if BddPointer_is_zero high_link then
-          -- L425: (var_id + 1)..low_link_var_id
-          pure (Rust.rangeArr (var_id + 1) low_link_var_id)
-        else if BddPointer_is_zero low_link then
-          -- L427: (var_id + 1)..high_link_var_id
-          pure (Rust.rangeArr (var_id + 1) high_link_var_id)
-        else
-          -- L429: seen_any[var_id] = true;
-          seen_any := (← Rust.setIdx seen_any var_id true)
-          -- L430: var_id..max(high_link_var_id, low_link_var_id)
-          pure (Rust.rangeArr var_id (max high_link_var_id low_link_var_id))
-      -- L433: if range.contains(&var) {
-      if range.contains var then
-        -- L434: for var in range {
-        for var in range do
-          -- L435: seen_any[var] = true;
-          seen_any := (← Rust.setIdx seen_any var true)
-        -- L437: break;
-        break
-  -- L443: for id in self.pointers().skip(2) {
-  for id_ in Rust.skip (Bdd_pointers self_) 2 do
-    -- L444: let var_id = usize::from(self.var_of(id).0);
-    let var_id := (← Bdd_var_of self_ id_)
-    -- L445: if !seen_any[var_id] {
-    if !(← Rust.idx seen_any var_id) then
-      -- L446: let high_link = self.high_link_of(id);
-      let high_link := (← Bdd_high_link_of self_ id_)
-      -- L447: let low_link = self.low_link_of(id);
-      let low_link := (← Bdd_low_link_of self_ id_)
-      -- L449: if high_link.is_zero() {
-      if BddPointer_is_zero high_link then
-        -- L450: seen_zero[var_id] = true;
-        seen_zero := (← Rust.setIdx seen_zero var_id true)
-      else if BddPointer_is_zero low_link then
-        -- L452: seen_one[var_id] = true;
-        seen_one := (← Rust.setIdx seen_one var_id true)
-  -- L457: let mut result = BddPartialValuation::empty();
-  let mut result : Array (Option Bool) := BddPartialValuation_empty
-  -- L458: for i in 0..usize::from(self.num_vars()) {
-  for i in [0:(← Bdd_num_vars self_)] do
-    -- L459: match (seen_zero[i], seen_one[i], seen_any[i]) {
-    match ((← Rust.idx seen_zero i), (← Rust.idx seen_one i), (← Rust.idx seen_any i)) with
-    | (_, _, true) | (true, true, _) =>
-      pure ()
-    | (true, false, false) =>
-      -- L466: result.set_value(BddVariable(i as u16), false);
-      result := Rust.pvalSetValue result (Rust.asU16 i) false
-    | (false, true, false) =>
-      -- L469: result.set_value(BddVariable(i as u16), true);
-      result := Rust.pvalSetValue result (Rust.asU16 i) true
-    | (false, false, false) =>
-      -- L474: unreachable!()
-      Outcome.panic "unreachable"
-  -- L479: Some(result)
-  pure (some result)
-
-/-- `Bdd::random_valuation` — src/_impl_bdd/_impl_valuation_utils.rs:310 (returns the updated `&mut` arguments: rng) -/
-def Bdd_random_valuation (self_ : Arr) (rng : List Bool) : Outcome (Option (Array Bool) × List Bool) := do
-  let mut rng := rng
-  -- L311: if self.is_false() {
-  if Bdd_is_false self_ then
-    -- L312: return None;
-    return (none, rng)
-  -- L315: let mut valuation = BddValuation::all_false(self.num_vars());
-  let mut valuation : Array Bool := BddValuation_all_false (← Bdd_num_vars self_)
-  -- L316: let mut node = self.root_pointer();
-  let mut node := (← Bdd_root_pointer self_)
-  -- L317: for i_var in 0..self.num_vars() {
-  for i_var in [0:(← Bdd_num_vars self_)] do
-    -- L318: let var = BddVariable(i_var);
-    let var := i_var
-    -- L319: if self.var_of(node) != var {
-    if (← Bdd_var_of self_ node) != var then
-      -- L321: valuation.set_value(var, rng.gen_bool(0.5));
-      let (coin1__, rng2__) := Rust.genBool rng
-      rng := rng2__
-      valuation := (← BddValuation_set_value valuation var coin1__)
-    else
-      -- L323: let child = if self.low_link_of(node).is_zero() {
-      let child ← if BddPointer_is_zero (← Bdd_low_link_of self_ node) then
-          -- L324: true
-          pure true
-        else
-          if BddPointer_is_zero (← Bdd_high_link_of self_ node) then
-            -- L326: false
-            pure false
-          else
-            -- L328: rng.gen_bool(0.5)
-            let (coin5__, rng6__) := Rust.genBool rng
-            rng := rng6__
-            pure coin5__
-      -- L331: valuation.set_value(var, child);
-      valuation := (← BddValuation_set_value valuation var child)
-      -- L332: node = if child {
-      let v7__ ← if child then
-          -- L333: self.high_link_of(node)
-          pure (← Bdd_high_link_of self_ node)
-        else
-          -- L335: self.low_link_of(node)
-          pure (← Bdd_low_link_of self_ node)
-      node := v7__
-  -- L340: Some(valuation)
-  pure (some valuation, rng)
-
-/-- `Bdd::random_clause` — src/_impl_bdd/_impl_valuation_utils.rs:348 (returns the updated `&mut` arguments: rng) -/
-def Bdd_random_clause (fuel : Nat) (self_ : Arr) (rng : List Bool) : Outcome (Option (Array (Option Bool)) × List Bool) := do
-  let mut rng := rng
-  -- L349: if self.is_false() {
-  if Bdd_is_false self_ then
-    -- L350: return None;
-    return (none, rng)
-  -- L353: let mut path = BddPartialValuation::empty();
-  let mut path : Array (Option Bool) := BddPartialValuation_empty
-  -- L354: let mut node = self.root_pointer();
-  let mut node := (← Bdd_root_pointer self_)
-  -- L355: while !node.is_one() {
-  for _ in [0:fuel] do
-    if !(!(BddPointer_is_one node)) then break
-    -- L356: let child = if self.low_link_of(node).is_zero() {
-    let child ← if BddPointer_is_zero (← Bdd_low_link_of self_ node) then
-        -- L357: true
-        pure true
-      else
-        if BddPointer_is_zero (← Bdd_high_link_of self_ node) then
-          -- L359: false
-          pure false
-        else
-          -- L361: rng.gen_bool(0.5)
-          let (coin3__, rng4__) := Rust.genBool rng
-          rng := rng4__
-          pure coin3__
-    -- L364: path.set_value(self.var_of(node), child);
-    path := Rust.pvalSetValue path (← Bdd_var_of self_ node) child
-    -- L365: node = if child {
-    let v5__ ← if child then
-        -- L366: self.high_link_of(node)
-        pure (← Bdd_high_link_of self_ node)
-      else
-        -- L368: self.low_link_of(node)
-        pure (← Bdd_low_link_of self_ node)
-    node := v5__
-  -- fuel exhausted while the loop of L355 could still run?
-  if !(BddPointer_is_one node) then Outcome.panic "fuel"
-  -- L372: Some(path)
-  pure (some path, rng)
-
-/-- `Bdd::and` — src/_impl_bdd/_impl_boolean_ops.rs:30 -/
-def Bdd_and (fuel : Nat) (self_ : Arr) (right : Arr) : Outcome Arr := do
-  -- L31: apply(self, right, op_function::and)
-  pure (← apply fuel self_ right Gen.and_)
-
-/-- `Bdd::or` — src/_impl_bdd/_impl_boolean_ops.rs:36 -/
-def Bdd_or (fuel : Nat) (self_ : Arr) (right : Arr) : Outcome Arr := do
-  -- L37: apply(self, right, op_function::or)
-  pure (← apply fuel self_ right Gen.or_)
-
-/-- `Bdd::imp` — src/_impl_bdd/_impl_boolean_ops.rs:42 -/
-def Bdd_imp (fuel : Nat) (self_ : Arr) (right : Arr) : Outcome Arr := do
-  -- L43: apply(self, right, op_function::imp)
-  pure (← apply fuel self_ right Gen.imp_)
-
-/-- `Bdd::iff` — src/_impl_bdd/_impl_boolean_ops.rs:48 -/
-def Bdd_iff (fuel : Nat) (self_ : Arr) (right : Arr) : Outcome Arr := do
-  -- L49: apply(self, right, op_function::iff)
-  pure (← apply fuel self_ right Gen.iff_)
-
-/-- `Bdd::xor` — src/_impl_bdd/_impl_boolean_ops.rs:54 -/
-def Bdd_xor (fuel : Nat) (self_ : Arr) (right : Arr) : Outcome Arr := do
-  -- L55: apply(self, right, op_function::xor)
-  pure (← apply fuel self_ right Gen.xor_)
-
-/-- `Bdd::and_not` — src/_impl_bdd/_impl_boolean_ops.rs:60 -/
-def Bdd_and_not (fuel : Nat) (self_ : Arr) (right : Arr) : Outcome Arr := do
-  -- L61: apply(self, right, op_function::and_not)
-  pure (← apply fuel self_ right Gen.and_not_)
-
-/-- `Bdd::binary_op_with_exists` — src/_impl_bdd/_impl_nested_ops.rs:28 -/
-def Bdd_binary_op_with_exists (fuel : Nat) (left : Arr) (right : Arr) (op : Option Bool → Option Bool → Option Bool) (variables : Array Nat) : Outcome Arr := do
-  -- L37: let set: HashSet<BddVariable, FxBuildHasher> =
-  let set : Std.HashSet Nat := Rust.hashSetFromArr variables
-  -- L39: let trigger = |var: BddVariable| set.contains(&var);
-  let trigger := (fun var => set.contains var)
-  -- L41: Bdd::binary_op_nested(left, right, trigger, op, crate::op_function::or)
-  pure (← Bdd_binary_op_nested fuel left right trigger op Gen.or_)
-
-/-- `Bdd::binary_op_with_for_all` — src/_impl_bdd/_impl_nested_ops.rs:10 -/
-def Bdd_binary_op_with_for_all (fuel : Nat) (left : Arr) (right : Arr) (op : Option Bool → Option Bool → Option Bool) (variables : Array Nat) : Outcome Arr := do
-  -- L19: let set: HashSet<BddVariable, FxBuildHasher> =
-  let set : Std.HashSet Nat := Rust.hashSetFromArr variables
-  -- L21: let trigger = |var: BddVariable| set.contains(&var);
-  let trigger := (fun var => set.contains var)
-  -- L23: Bdd::binary_op_nested(left, right, trigger, op, crate::op_function::and)
-  pure (← Bdd_binary_op_nested fuel left right trigger op Gen.and_)
-
-/-- `Bdd::var_exists` — src/_impl_bdd/_impl_relation_ops.rs:19 -/
-def Bdd_var_exists (fuel : Nat) (self_ : Arr) (variable_ : Nat) : Outcome Arr := do
-  -- L20: Bdd::fused_binary_flip_op(
-  pure (← Bdd_fused_binary_flip_op fuel (self_, none) (self_, some variable_) none Gen.or_)
-
-/-- `Bdd::var_for_all` — src/_impl_bdd/_impl_relation_ops.rs:32 -/
-def Bdd_var_for_all (fuel : Nat) (self_ : Arr) (variable_ : Nat) : Outcome Arr := do
-  -- L33: Bdd::fused_binary_flip_op(
-  pure (← Bdd_fused_binary_flip_op fuel (self_, none) (self_, some variable_) none Gen.and_)
-
-/-- `Bdd::exists` — src/_impl_bdd/_impl_relation_ops.rs:56 -/
-def Bdd_exists (fuel : Nat) (self_ : Arr) (variables : Array Nat) : Outcome Arr := do
-  -- L58: Bdd::binary_op_with_exists(self, self, crate::op_function::and, variables)
-  pure (← Bdd_binary_op_with_exists fuel self_ self_ Gen.and_ variables)
-
-/-- `Bdd::for_all` — src/_impl_bdd/_impl_relation_ops.rs:64 -/
-def Bdd_for_all (fuel : Nat) (self_ : Arr) (variables : Array Nat) : Outcome Arr := do
-  -- L65: Bdd::binary_op_with_for_all(self, self, crate::op_function::and, variables)
-  pure (← Bdd_binary_op_with_for_all fuel self_ self_ Gen.and_ variables)
-
-/-- `Bdd::var_project` — src/_impl_bdd/_impl_relation_ops.rs:11 -/
-def Bdd_var_project (fuel : Nat) (self_ : Arr) (variable_ : Nat) : Outcome Arr := do
-  -- L12: self.var_exists(variable)
-  pure (← Bdd_var_exists fuel self_ variable_)
-
-/-- `Bdd::project` — src/_impl_bdd/_impl_relation_ops.rs:44 -/
-def Bdd_project (fuel : Nat) (self_ : Arr) (variables : Array Nat) : Outcome Arr := do
-  -- L45: self.exists(variables)
-  pure (← Bdd_exists fuel self_ variables)
-
-/-- `Bdd::var_select` — src/_impl_bdd/_impl_relation_ops.rs:141 -/
-def Bdd_var_select (fuel : Nat) (self_ : Arr) (variable_ : Nat) (value : Bool) : Outcome Arr := do
-  -- L142: self.and(&Bdd::mk_literal(self.num_vars(), variable, value))
-  pure (← Bdd_and fuel self_ (Bdd_mk_literal (← Bdd_num_vars self_) variable_ value))
-
-/-- `Bdd::select` — src/_impl_bdd/_impl_relation_ops.rs:148 -/
-def Bdd_select (fuel : Nat) (self_ : Arr) (variables : Array (Nat × Bool)) : Outcome Arr := do
-  -- L149: let valuation = BddPartialValuation::from_values(variables);
-  let valuation : Array (Option Bool) := (← BddPartialValuation_from_values variables)
-  -- L150: let valuation_bdd = Bdd::mk_partial_valuation(self.num_vars(), &valuation);
-  let valuation_bdd : Arr := (← Bdd_mk_partial_valuation (← Bdd_num_vars self_) valuation)
-  -- L151: self.and(&valuation_bdd)
-  pure (← Bdd_and fuel self_ valuation_bdd)
-
-/-- `sorted` — src/_impl_bdd/_impl_relation_ops.rs:172 -/
-def sorted (variables : Array Nat) : Array Nat :=
-  let variables : Array Nat := variables
-  let variables := Rust.sortNat variables
-  let variables := Rust.dedup variables
-  variables
-
-/-- `Bdd::var_pick` — src/_impl_bdd/_impl_relation_ops.rs:77 -/
-def Bdd_var_pick (fuel : Nat) (self_ : Arr) (variable_ : Nat) : Outcome Arr := do
-  -- L79: Bdd::fused_binary_flip_op(
-  pure (← Bdd_fused_binary_flip_op fuel (self_, none) ((← Bdd_var_select fuel self_ variable_ false), some variable_) none Gen.and_not_)
-
-/-- `Bdd::var_pick_random` — src/_impl_bdd/_impl_relation_ops.rs:92 (returns the updated `&mut` arguments: rng) -/
-def Bdd_var_pick_random (fuel : Nat) (self_ : Arr) (variable_ : Nat) (rng : List Bool) : Outcome (Arr × List Bool) := do
-  let mut rng := rng
-  -- L93: let preferred = self.var_select(variable, rng.gen_bool(0.5));
-  let (coin1__, rng2__) := Rust.genBool rng
-  rng := rng2__
-  let preferred : Arr := (← Bdd_var_select fuel self_ variable_ coin1__)
-  -- L94: Bdd::fused_binary_flip_op(
-  pure ((← Bdd_fused_binary_flip_op fuel (self_, none) (preferred, some variable_) none Gen.and_not_), rng)
-
-/-- `Bdd::pick::r_pick` — src/_impl_bdd/_impl_relation_ops.rs:112 -/
-def Bdd_pick__r_pick (fuel : Nat) (set : Arr) (variables : Array Nat) : Outcome Arr :=
-  match fuel with
-  | 0 => Outcome.panic "fuel"
-  | fuel + 1 => do
-    -- L113: if let Some((last_var, rest)) = variables.split_last() {
-    match Rust.splitLast variables with
-    | some (last_var, rest) =>
-      -- L114: let picked = r_pick(&set.var_exists(*last_var), rest);
-      let picked : Arr := (← Bdd_pick__r_pick fuel (← Bdd_var_exists fuel set last_var) rest)
-      -- L115: picked.and(&set.var_pick(*last_var))
-      pure (← Bdd_and fuel picked (← Bdd_var_pick fuel set last_var))
-    | _ =>
-      -- L117: set.clone()
-      pure set
-
-/-- `Bdd::pick` — src/_impl_bdd/_impl_relation_ops.rs:111 -/
-def Bdd_pick (fuel : Nat) (self_ : Arr) (variables : Array Nat) : Outcome Arr := do
-  -- L121: r_pick(self, &sorted(variables))
-  pure (← Bdd_pick__r_pick fuel self_ (sorted variables))
-
-/-- `Bdd::pick_random::r_pick` — src/_impl_bdd/_impl_relation_ops.rs:127 (returns the updated `&mut` arguments: rng) -/
-def Bdd_pick_random__r_pick (fuel : Nat) (set : Arr) (variables : Array Nat) (rng : List Bool) : Outcome (Arr × List Bool) :=
-  match fuel with
-  | 0 => Outcome.panic "fuel"
-  | fuel + 1 => do
-    let mut rng := rng
-    -- L128: if let Some((last_var, rest)) = variables.split_last() {
-    match Rust.splitLast variables with
-    | some (last_var, rest) =>
-      -- L129: let picked = r_pick(&set.var_exists(*last_var), rest, rng);
-      let (ret1__, mut2__) := (← Bdd_pick_random__r_pick fuel (← Bdd_var_exists fuel set last_var) rest rng)
-      rng := mut2__
-      let picked : Arr := ret1__
-      -- L130: picked.and(&set.var_pick_random(*last_var, rng))
-      let (ret3__, mut4__) := (← Bdd_var_pick_random fuel set last_var rng)
-      rng := mut4__
-      pure ((← Bdd_and fuel picked ret3__), rng)
-    | _ =>
-      -- L132: set.clone()
-      pure (set, rng)
-
-/-- `Bdd::pick_random` — src/_impl_bdd/_impl_relation_ops.rs:126 (returns the updated `&mut` arguments: rng) -/
-def Bdd_pick_random (fuel : Nat) (self_ : Arr) (variables : Array Nat) (rng : List Bool) : Outcome (Arr × List Bool) := do
-  let mut rng := rng
-  -- L136: r_pick(self, &sorted(variables), rng)
-  let (ret1__, mut2__) := (← Bdd_pick_random__r_pick fuel self_ (sorted variables) rng)
-  rng := mut2__
-  pure (ret1__, rng)
-
-/-- `Bdd::set_num_vars` — src/_impl_bdd/_impl_util.rs:32 (returns the updated `&mut` arguments: self_) -/
-def Bdd_set_num_vars (self_ : Arr) (new_value : Nat) : Outcome Arr := do
-  let mut self_ := self_
-  -- L33: for node in self.nodes().skip(2) {
-  for node in Rust.skip (Bdd_nodes self_) 2 do
-    -- L34: if node.var.0 >= new_value {
-    if decide (node.var ≥ new_value) then
-      -- L35: panic!(
-      Outcome.panic "BDD contains `{:?}`, which is invalid with variable count `{}`."
-  -- L42: self.0[0].var = BddVariable(new_value);
-  self_ := (← Rust.setIdx self_ 0 { (← Rust.idx self_ 0) with var := new_value })
-  -- L43: if self.0.len() > 1 {
-  if decide (self_.size > 1) then
-    -- L44: self.0[1].var = BddVariable(new_value);
-    self_ := (← Rust.setIdx self_ 1 { (← Rust.idx self_ 1) with var := new_value })
-    pure self_
-  else
-    pure self_
-
-/-- `Bdd::rename_variables` — src/_impl_bdd/_impl_util.rs:56 (returns the updated `&mut` arguments: self_) -/
-def Bdd_rename_variables (self_ : Arr) (permutation : Std.HashMap Nat Nat) : Outcome Arr := do
-  let mut self_ := self_
-  -- L57: let mut current_vars = Vec::from_iter(self.support_set());
-  let mut current_vars := (← Bdd_support_set self_).toArray
-  -- L59: if current_vars.is_empty() {
-  if current_vars.isEmpty then
-    -- L62: return;
-    return self_
-  -- L65: current_vars.sort();
-  current_vars := Rust.sortNat current_vars
-  -- L66: let vars_after_permutation = current_vars
-  let vars_after_permutation : Array Nat := current_vars.map (fun it => (permutation[it]?).getD it)
-  -- L73: assert!(vars_after_permutation
-  let mut all1__ := true
-  for it in vars_after_permutation do
-    if !(decide (it < (← Bdd_num_vars self_))) then
-      all1__ := false
-      break
-  if !all1__ then Outcome.panic "assertion failed: assert!(vars_after_permutation"
-  -- L76: for i in 0..(vars_after_permutation.len() - 1) {
-  for i in [0:(← Rust.sub vars_after_permutation.size 1)] do
-    -- L77: assert!(vars_after_permutation[i] < vars_after_permutation[i + 1]);
-    if !(decide ((← Rust.idx vars_after_permutation i) < (← Rust.idx vars_after_permutation (i + 1)))) then Outcome.panic "assertion failed: assert!(vars_after_permutation[i] < vars_after_permutation[i + 1]);"
-  -- L80: for node in self.0.iter_mut().skip(2) {
-  for i2__ in [2:self_.size] do
-    let mut node ← Rust.idx self_ i2__
-    -- L81: if let Some(new) = permutation.get(&node.var) {
-    match permutation[node.var]? with
-    | some new =>
-      -- L82: node.var = *new;
-      node := { node with var := new }
-    | _ =>
-      pure ()
-    self_ := (← Rust.setIdx self_ i2__ node)
-  pure self_
-
-/-- `Bdd::rename_variable` — src/_impl_bdd/_impl_util.rs:96 (returns the updated `&mut` arguments: self_) -/
-def Bdd_rename_variable (self_ : Arr) (old_id : Nat) (new_id : Nat) : Outcome Arr := do
-  let mut self_ := self_
-  -- L97: assert!(old_id.0 < self.num_vars());
-  if !(decide (old_id < (← Bdd_num_vars self_))) then Outcome.panic "assertion failed: assert!(old_id.0 < self.num_vars());"
-  -- L98: assert!(new_id.0 < self.num_vars());
-  if !(decide (new_id < (← Bdd_num_vars self_))) then Outcome.panic "assertion failed: assert!(new_id.0 < self.num_vars());"
-  -- L100: if old_id == new_id {
-  if old_id == new_id then
-    -- L101: return;
-    return self_
-  -- L104: let support_set = self.support_set();
-  let support_set : Std.HashSet Nat := (← Bdd_support_set self_)
-  -- L105: let low = min(old_id.0, new_id.0);
-  let low := min old_id new_id
-  -- L106: let high = max(old_id.0, new_id.0);
-  let high := max old_id new_id
-  -- L107: for i in (low + 1)..high {
-  for i in [low + 1:high] do
-    -- L108: if support_set.contains(&BddVariable(i)) {
-    if support_set.contains i then
-      -- L109: panic!(
-      Outcome.panic "Cannot rename {} to {} due to the presence of {}."
-  -- L116: if support_set.contains(&new_id) {
-  if support_set.contains new_id then
-    -- L117: panic!(
-    Outcome.panic "Cannot rename {} to {} due to the presence of {}."
-  -- L123: for node in &mut self.0 {
-  for i1__ in [0:self_.size] do
-    let mut node ← Rust.idx self_ i1__
-    -- L124: if node.var == old_id {
-    if node.var == old_id then
-      -- L125: node.var = new_id;
-      node := { node with var := new_id }
-    self_ := (← Rust.setIdx self_ i1__ node)
-  pure self_
-
-/-- `BddVariable::to_index` — src/_impl_bdd_variable.rs:22 -/
-def BddVariable_to_index (self_ : Nat) : Nat :=
-  self_
-
-/-- `BddVariable::from_index` — src/_impl_bdd_variable.rs:27 -/
-def BddVariable_from_index (index : Nat) : Outcome Nat := do
-  -- L28: BddVariable(u16::try_from(index).unwrap())
-  pure (← Rust.unwrapR (Rust.u16TryFrom index))
-
-/-- `Bdd::substitute` — src/_impl_bdd/_impl_util.rs:572 -/
-def Bdd_substitute (fuel : Nat) (self_ : Arr) (var : Nat) (function : Arr) : Outcome Arr := do
-  -- L573: let input_set = self.support_set();
-  let input_set : Std.HashSet Nat := (← Bdd_support_set self_)
-  -- L574: if !input_set.contains(&var) {
-  if !(input_set.contains var) then
-    -- L577: return self.clone();
-    return self_
-  -- L580: let sub_inputs = function.support_set();
-  let sub_inputs : Std.HashSet Nat := (← Bdd_support_set function)
-  -- L581: if !sub_inputs.contains(&var) {
-  if !(sub_inputs.contains var) then
-    -- L584: let var_bdd = Bdd::mk_literal(self.num_vars(), var, true);
-    let var_bdd : Arr := Bdd_mk_literal (← Bdd_num_vars self_) var true
-    -- L585: let iff = var_bdd.iff(function);
-    let iff : Arr := (← Bdd_iff fuel var_bdd function)
-    -- L586: Bdd::binary_op_with_exists(self, &iff, op_function::and, &[var])
-    pure (← Bdd_binary_op_with_exists fuel self_ iff Gen.and_ #[var])
-  else
-    -- L597: let mut self_copy = self.clone();
-    let mut self_copy : Arr := self_
-    -- L598: let mut function_copy = function.clone();
-    let mut function_copy : Arr := function
-    -- L601: let mut permutation = HashMap::new();
-    let mut permutation : Std.HashMap Nat Nat := Rust.hashMapWithCapacity 8
-    -- L602: for input in var.to_index()..usize::from(self.num_vars()) {
-    for input in [BddVariable_to_index var:(← Bdd_num_vars self_)] do
-      -- L603: let shifted = BddVariable::from_index(input + 1);
-      let shifted := (← BddVariable_from_index (input + 1))
-      -- L604: permutation.insert(BddVariable::from_index(input), shifted);
-      permutation := permutation.insert (← BddVariable_from_index input) shifted
-    -- L606: unsafe {
-    do
-      -- L607: self_copy.set_num_vars(self_copy.num_vars().checked_add(1).unwrap());
-      self_copy := (← Bdd_set_num_vars self_copy (← Rust.unwrap (Rust.checkedAddU16 (← Bdd_num_vars self_copy) 1)))
-      -- L608: self_copy.rename_variables(&permutation);
-      self_copy := (← Bdd_rename_variables self_copy permutation)
-    -- L613: let var_prime = permutation.remove(&var).unwrap();
-    let old1__ := permutation[var]?
-    permutation := permutation.erase var
-    let var_prime := (← Rust.unwrap old1__)
-    -- L614: unsafe {
-    do
-      -- L615: function_copy.set_num_vars(function_copy.num_vars().checked_add(1).unwrap());
-      function_copy := (← Bdd_set_num_vars function_copy (← Rust.unwrap (Rust.checkedAddU16 (← Bdd_num_vars function_copy) 1)))
-      -- L616: function_copy.rename_variables(&permutation);
-      function_copy := (← Bdd_rename_variables function_copy permutation)
-    -- L621: let var_bdd = Bdd::mk_literal(self_copy.num_vars(), var_prime, true);
-    let var_bdd : Arr := Bdd_mk_literal (← Bdd_num_vars self_copy) var_prime true
-    -- L622: let iff = var_bdd.iff(&function_copy);
-    let iff : Arr := (← Bdd_iff fuel var_bdd function_copy)
-    -- L623: let mut substituted =
-    let mut substituted : Arr := (← Bdd_binary_op_with_exists fuel self_copy iff Gen.and_ #[var_prime])
-    -- L628: let reverse_permutation = permutation
-    let reverse_permutation : Std.HashMap Nat Nat := Rust.hashMapFromArr (permutation.toArray.map (fun (a, b) => (b, a)))
-    -- L633: unsafe {
-    do
-      -- L634: substituted.rename_variables(&reverse_permutation);
-      substituted := (← Bdd_rename_variables substituted reverse_permutation)
-      -- L635: substituted.set_num_vars(substituted.num_vars() - 1);
-      substituted := (← Bdd_set_num_vars substituted (← Rust.sub (← Bdd_num_vars substituted) 1))
-    -- L638: substituted
-    pure substituted
-
-/-- `Bdd::size_per_variable` — src/_impl_bdd/_impl_util.rs:528 -/
-def Bdd_size_per_variable (self_ : Arr) : Outcome (Std.HashMap Nat Nat) := do
-  -- L529: let mut counts = HashMap::new();
-  let mut counts : Std.HashMap Nat Nat := Rust.hashMapWithCapacity 8
-  -- L530: for node in self.pointers().skip(2) {
-  for node in Rust.skip (Bdd_pointers self_) 2 do
-    -- L531: let var = self.var_of(node);
-    let var := (← Bdd_var_of self_ node)
-    -- L532: if let Some(reference) = counts.get_mut(&var) {
-    match counts[var]? with
-    | some reference =>
-      -- L533: *reference += 1;
-      counts := counts.insert var (reference + 1)
-    | _ =>
-      -- L535: counts.insert(var, 1);
-      counts := counts.insert var 1
-  -- L539: counts
-  pure counts
-
-/-- `BddVariableSet::new_anonymous` — src/_impl_bdd_variable_set.rs:10 -/
-def BddVariableSet_new_anonymous (num_vars : Nat) : Outcome (Nat × Array String × Std.HashMap String Nat) := do
-  -- L11: if num_vars >= (u16::MAX - 1) {
-  if decide (num_vars ≥ (← Rust.sub 65535 1)) then
-    -- L12: panic!(
-    Outcome.panic "Too many BDD variables. There can be at most {} variables."
-  -- L17: BddVariableSet {
-  pure ((num_vars, (Array.range num_vars).map ((fun i => "x_" ++ (toString i) ++ "")), Rust.hashMapFromArr ((Array.range num_vars).map ((fun i => ("x_" ++ (toString i) ++ "", i))))))
-
-/-- `BddVariableSet::var_by_name` — src/_impl_bdd_variable_set.rs:71 -/
-def BddVariableSet_var_by_name (self_ : Nat × Array String × Std.HashMap String Nat) (name : String) : Option Nat :=
-  (self_.2.2[name]?).map (fun x => x)
-
-/-- `BddVariableSet::name_of` — src/_impl_bdd_variable_set.rs:95 -/
-def BddVariableSet_name_of (self_ : Nat × Array String × Std.HashMap String Nat) (variable_ : Nat) : Outcome String := do
-  -- L96: self.var_names[variable.0 as usize].clone()
-  pure (← Rust.idx self_.2.1 variable_)
-
-/-- `BddVariableSet::mk_true` — src/_impl_bdd_variable_set.rs:100 -/
-def BddVariableSet_mk_true (self_ : Nat × Array String × Std.HashMap String Nat) : Arr :=
-  Bdd_mk_true self_.1
-
-/-- `BddVariableSet::mk_conjunctive_clause` — src/_impl_bdd_variable_set.rs:160 -/
-def BddVariableSet_mk_conjunctive_clause (self_ : Nat × Array String × Std.HashMap String Nat) (clause : Array (Option Bool)) : Outcome Arr := do
-  -- L161: let mut result = self.mk_true();
-  let mut result : Arr := BddVariableSet_mk_true self_
-  -- L164: for (index, value) in clause.0.iter().enumerate().rev() {
-  for (index, value) in (Rust.enumerate clause).reverse do
-    -- L165: if let Some(value) = value {
-    match value with
-    | some value =>
-      -- L166: assert!(index < self.num_vars as usize);
-      if !(decide (index < self_.1)) then Outcome.panic "assertion failed: assert!(index < self.num_vars as usize);"
-      -- L169: debug_assert!(u16::try_from(index).is_ok());
-      -- (release build: not compiled) debug_assert!(u16::try_from(index).is_ok());
-      -- L170: let variable = BddVariable(index as u16);
-      let variable_ := Rust.asU16 index
-      -- L172: let node = if *value {
-      let node ← if value then
-          -- L174: BddNode::mk_node(variable, BddPointer::zero(), result.root_pointer())
-          pure (BddNode_mk_node variable_ BddPointer_zero (← Bdd_root_pointer result))
-        else
-          -- L177: BddNode::mk_node(variable, result.root_pointer(), BddPointer::zero())
-          pure (BddNode_mk_node variable_ (← Bdd_root_pointer result) BddPointer_zero)
-      -- L180: result.push_node(node);
-      result := Bdd_push_node result node
-    | _ =>
-      pure ()
-  -- L184: result
-  pure result
-
-/-- `BddPartialValuation::is_empty` — src/_impl_bdd_partial_valuation.rs:14 -/
-def BddPartialValuation_is_empty (self_ : Array (Option Bool)) : Bool :=
-  self_.all (fun it => it.isNone)
-
-/-- `BddVariableSet::mk_false` — src/_impl_bdd_variable_set.rs:105 -/
-def BddVariableSet_mk_false (self_ : Nat × Array String × Std.HashMap String Nat) : Arr :=
-  Bdd_mk_false self_.1
-
-/-- `BddVariableSet::mk_disjunctive_clause` — src/_impl_bdd_variable_set.rs:194 -/
-def BddVariableSet_mk_disjunctive_clause (self_ : Nat × Array String × Std.HashMap String Nat) (clause : Array (Option Bool)) : Outcome Arr := do
-  -- L196: if clause.is_empty() {
-  if BddPartialValuation_is_empty clause then
-    -- L197: return self.mk_false();
-    return BddVariableSet_mk_false self_
-  -- L200: let mut result = self.mk_true();
-  let mut result : Arr := BddVariableSet_mk_true self_
-  -- L204: let mut shadow_root = BddPointer::zero();
-  let mut shadow_root := BddPointer_zero
-  -- L205: for (index, value) in clause.0.iter().enumerate().rev() {
-  for (index, value) in (Rust.enumerate clause).reverse do
-    -- L206: if let Some(value) = value {
-    match value with
-    | some value =>
-      -- L207: assert!(index < self.num_vars as usize);
-      if !(decide (index < self_.1)) then Outcome.panic "assertion failed: assert!(index < self.num_vars as usize);"
-      -- L208: debug_assert!(u16::try_from(index).is_ok());
-      -- (release build: not compiled) debug_assert!(u16::try_from(index).is_ok());
-      -- L209: let variable = BddVariable(index as u16);
-      let variable_ := Rust.asU16 index
-      -- L211: let node = if *value {
-      let node := (if value then BddNode_mk_node variable_ shadow_root BddPointer_one else BddNode_mk_node variable_ BddPointer_one shadow_root)
-      -- L217: result.push_node(node);
-      result := Bdd_push_node result node
-      -- L218: shadow_root = result.root_pointer();
-      shadow_root := (← Bdd_root_pointer result)
-    | _ =>
-      pure ()
-  -- L222: result
-  pure result
-
-/-- `BddVariableSet::mk_not_var` — src/_impl_bdd_variable_set.rs:122 -/
-def BddVariableSet_mk_not_var (self_ : Nat × Array String × Std.HashMap String Nat) (var : Nat) : Arr :=
-  -- (release build: not compiled) debug_assert!(var.0 < self.num_vars, "Invalid variable id.");
-  Bdd_mk_not_var self_.1 var
-
-/-- `BddVariableSet::mk_sat_up_to_k` — src/_impl_bdd_variable_set.rs:243 -/
-def BddVariableSet_mk_sat_up_to_k (fuel : Nat) (self_ : Nat × Array String × Std.HashMap String Nat) (k : Nat) (variables : Array Nat) : Outcome Arr := do
-  -- L245: let mut valuation = BddPartialValuation::empty();
-  let mut valuation : Array (Option Bool) := BddPartialValuation_empty
-  -- L246: for var in variables {
-  for var in variables do
-    -- L247: valuation.set_value(*var, false);
-    valuation := Rust.pvalSetValue valuation var false
-  -- L249: let mut result = self.mk_conjunctive_clause(&valuation);
-  let mut result : Arr := (← BddVariableSet_mk_conjunctive_clause self_ valuation)
-  -- L250: for _i in 0..k {
-  for _i in [0:k] do
-    -- L251: let mut result_plus_one = result.clone();
-    let mut result_plus_one : Arr := result
-    -- L252: for var in variables {
-    for var in variables do
-      -- L253: let var_is_false = self.mk_not_var(*var);
-      let var_is_false : Arr := BddVariableSet_mk_not_var self_ var
-      -- L255: let propagate = Bdd::fused_binary_flip_op(
-      let propagate : Arr := (← Bdd_fused_binary_flip_op fuel (result, none) (var_is_false, none) (some var) Gen.and_)
-      -- L261: result_plus_one = result_plus_one.or(&propagate);
-      result_plus_one := (← Bdd_or fuel result_plus_one propagate)
-    -- L264: result = result_plus_one
-    result := result_plus_one
-  -- L267: result
-  pure result
-
-/-- `BddVariableSet::mk_sat_exactly_k` — src/_impl_bdd_variable_set.rs:274 -/
-def BddVariableSet_mk_sat_exactly_k (fuel : Nat) (self_ : Nat × Array String × Std.HashMap String Nat) (k : Nat) (variables : Array Nat) : Outcome Arr := do
-  -- L276: let mut valuation = BddPartialValuation::empty();
-  let mut valuation : Array (Option Bool) := BddPartialValuation_empty
-  -- L277: for var in variables {
-  for var in variables do
-    -- L278: valuation.set_value(*var, false);
-    valuation := Rust.pvalSetValue valuation var false
-  -- L280: let mut result = self.mk_conjunctive_clause(&valuation);
-  let mut result : Arr := (← BddVariableSet_mk_conjunctive_clause self_ valuation)
-  -- L281: for _i in 0..k {
-  for _i in [0:k] do
-    -- L282: let mut result_plus_one = self.mk_false();
-    let mut result_plus_one : Arr := BddVariableSet_mk_false self_
-    -- L283: for var in variables {
-    for var in variables do
-      -- L284: let var_is_false = self.mk_not_var(*var);
-      let var_is_false : Arr := BddVariableSet_mk_not_var self_ var
-      -- L286: let propagate = Bdd::fused_binary_flip_op(
-      let propagate : Arr := (← Bdd_fused_binary_flip_op fuel (result, none) (var_is_false, none) (some var) Gen.and_)
-      -- L292: result_plus_one = result_plus_one.or(&propagate);
-      result_plus_one := (← Bdd_or fuel result_plus_one propagate)
-    -- L295: result = result_plus_one
-    result := result_plus_one
-  -- L298: result
-  pure result
-
-/-- `BddVariableSet::transfer_from` — src/_impl_bdd_variable_set.rs:317 -/
-def BddVariableSet_transfer_from (self_ : Nat × Array String × Std.HashMap String Nat) (bdd : Arr) (ctx : Nat × Array String × Std.HashMap String Nat) : Outcome (Option Arr) := do
-  -- L319: if bdd.is_false() {
-  if Bdd_is_false bdd then
-    -- L320: return Some(self.mk_false());
-    return some (BddVariableSet_mk_false self_)
-  -- L323: if bdd.is_true() {
-  if Bdd_is_true bdd then
-    -- L324: return Some(self.mk_true());
-    return some (BddVariableSet_mk_true self_)
-  -- L328: let mut old_support_set = bdd.support_set().into_iter().collect::<Vec<_>>();
-  let mut old_support_set := (← Bdd_support_set bdd).toArray
-  -- L329: old_support_set.sort();
-  old_support_set := Rust.sortNat old_support_set
-  -- L332: let mut new_support_set = Vec::new();
-  let mut new_support_set : Array Nat := #[]
-  -- L333: for var in &old_support_set {
-  for var in old_support_set do
-    -- L334: let name = ctx.name_of(*var);
-    let name := (← BddVariableSet_name_of ctx var)
-    -- L335: let Some(id) = self.var_by_name(name.as_str()) else {
-    let some id_ := BddVariableSet_var_by_name self_ name | do
-        -- L337: return None;
-        return none
-    -- L339: new_support_set.push(id);
-    new_support_set := new_support_set.push id_
-  -- L343: for i in 1..new_support_set.len() {
-  for i in [1:new_support_set.size] do
-    -- L346: if new_support_set[i] <= new_support_set[i - 1] {
-    if decide ((← Rust.idx new_support_set i) ≤ (← Rust.idx new_support_set (← Rust.sub i 1))) then
-      -- L347: return None;
-      return none
-  -- L352: let map = old_support_set
-  let map : Std.HashMap Nat Nat := Rust.hashMapFromArr (old_support_set.zip new_support_set)
-  -- L360: let mut new_bdd = Bdd::mk_true(self.num_vars);
-  let mut new_bdd : Arr := Bdd_mk_true self_.1
-  -- L361: for node in bdd.nodes().skip(2) {
-  for node in Rust.skip (Bdd_nodes bdd) 2 do
-    -- L362: let Some(new_var) = map.get(&node.var) else {
-    let some new_var := map[node.var]? | do
-        -- L363: unreachable!()
-        Outcome.panic "unreachable"
-    -- L365: let new_node = BddNode::mk_node(*new_var, node.low_link, node.high_link);
-    let new_node := BddNode_mk_node new_var node.low node.high
-    -- L366: new_bdd.push_node(new_node);
-    new_bdd := Bdd_push_node new_bdd new_node
-  -- L369: Some(new_bdd)
-  pure (some new_bdd)
-
-/-- `BddVariableSet::mk_var` — src/_impl_bdd_variable_set.rs:113 -/
-def BddVariableSet_mk_var (self_ : Nat × Array String × Std.HashMap String Nat) (var : Nat) : Arr :=
-  -- (release build: not compiled) debug_assert!(var.0 < self.num_vars, "Invalid variable id.");
-  Bdd_mk_var self_.1 var
-
-/-- `BddVariableSet::mk_literal` — src/_impl_bdd_variable_set.rs:130 -/
-def BddVariableSet_mk_literal (self_ : Nat × Array String × Std.HashMap String Nat) (var : Nat) (value : Bool) : Arr :=
-  -- (release build: not compiled) debug_assert!(var.0 < self.num_vars, "Invalid variable id.");
-  Bdd_mk_literal self_.1 var value
-
-/-- `BddVariableSet::mk_var_by_name` — src/_impl_bdd_variable_set.rs:138 -/
-def BddVariableSet_mk_var_by_name (self_ : Nat × Array String × Std.HashMap String Nat) (var : String) : Outcome Arr := do
-  -- L141: .unwrap_or_else(|| panic!("Variable {} is not known in this set.", var))
-  let v1__ ← match (BddVariableSet_var_by_name self_ var).map (fun var => BddVariableSet_mk_var self_ var) with
-    | some v__ => pure v__
-    | none =>
-      Outcome.panic "Variable {} is not known in this set."
-  pure v1__
-
-/-- `BddVariableSet::mk_not_var_by_name` — src/_impl_bdd_variable_set.rs:147 -/
-def BddVariableSet_mk_not_var_by_name (self_ : Nat × Array String × Std.HashMap String Nat) (var : String) : Outcome Arr := do
-  -- L150: .unwrap_or_else(|| panic!("Variable {} is not known in this set.", var))
-  let v1__ ← match (BddVariableSet_var_by_name self_ var).map (fun var => BddVariableSet_mk_not_var self_ var) with
-    | some v__ => pure v__
-    | none =>
-      Outcome.panic "Variable {} is not known in this set."
-  pure v1__
-
-/-- `Bdd::mk_dnf::_rec` — src/_impl_bdd/_impl_dnf.rs:11 -/
-def Bdd_mk_dnf___rec (fuel : Nat) (var : Nat) (num_vars : Nat) (dnf : Array (Array (Option Bool))) : Outcome Arr :=
-  match fuel with
-  | 0 => Outcome.panic "fuel"
-  | fuel + 1 => do
-    let mut var := var
-    -- L12: loop {
-    for _ in [0:fuel] do
-      -- L13: if dnf.is_empty() {
-      if dnf.isEmpty then
-        -- L14: return Bdd::mk_false(num_vars);
-        return Bdd_mk_false num_vars
-      -- L16: if var == num_vars || dnf.len() == 1 {
-      if (var == num_vars) || (dnf.size == 1) then
-        -- L17: let c = dnf[0];
-        let c : Array (Option Bool) := (← Rust.idx dnf 0)
-        -- L19: for cx in &dnf[1..] {
-        for cx in (← Rust.sliceFrom dnf 1) do
-          -- L20: assert_eq!(*cx, c);
-          if !(Rust.pvalEq cx c) then Outcome.panic "assertion failed: assert_eq!(*cx, c);"
-        -- L22: return Bdd::mk_partial_valuation(num_vars, c);
-        return (← Bdd_mk_partial_valuation num_vars c)
-      -- L27: assert!(var < num_vars);
-      if !(decide (var < num_vars)) then Outcome.panic "assertion failed: assert!(var < num_vars);"
-      -- L29: let variable = BddVariable(var);
-      let variable_ := var
-      -- L30: let should_branch = dnf.iter().any(|val| val.has_value(variable));
-      let mut any1__ := false
-      for val in dnf do
-        if (← BddPartialValuation_has_value val variable_) then
-          any1__ := true
-          break
-      let should_branch := any1__
-      -- L31: if !should_branch {
-      if !should_branch then
-        -- L32: var += 1;
-        var := var + 1
-        -- L33: continue;
-        continue
-      -- L36: let mut dont_care = Vec::new();
-      let mut dont_care : Array (Array (Option Bool)) := #[]
-      -- L37: let mut has_true = Vec::new();
-      let mut has_true : Array (Array (Option Bool)) := #[]
-      -- L38: let mut has_false = Vec::new();
-      let mut has_false : Array (Array (Option Bool)) := #[]
-      -- L40: for c in dnf {
-      for c in dnf do
-        -- L41: match c.get_value(BddVariable(var)) {
-        match (← BddPartialValuation_get_value c var) with
-        | none =>
-          dont_care := dont_care.push c
-        | some true =>
-          has_true := has_true.push c
-        | some false =>
-          has_false := has_false.push c
-      -- L48: let dont_care = _rec(var + 1, num_vars, &dont_care);
-      let dont_care_1 : Arr := (← Bdd_mk_dnf___rec fuel (var + 1) num_vars dont_care)
-      -- L49: let has_true = _rec(var + 1, num_vars, &has_true);
-      let has_true_2 : Arr := (← Bdd_mk_dnf___rec fuel (var + 1) num_vars has_true)
-      -- L50: let has_false = _rec(var + 1, num_vars, &has_false);
-      let has_false_3 : Arr := (← Bdd_mk_dnf___rec fuel (var + 1) num_vars has_false)
-      -- L52: return dont_care.or(&has_true).or(&has_false);
-      return (← Bdd_or fuel (← Bdd_or fuel dont_care_1 has_true_2) has_false_3)
-    -- fuel exhausted before the `loop` of L12 was left?
-    Outcome.panic "fuel"
-
-/-- `Bdd::mk_dnf` — src/_impl_bdd/_impl_dnf.rs:10 -/
-def Bdd_mk_dnf (fuel : Nat) (num_vars : Nat) (dnf : Array (Array (Option Bool))) : Outcome Arr := do
-  -- L56: let dnf_internal = Vec::from_iter(dnf.iter());
-  let dnf_internal : Array (Array (Option Bool)) := dnf
-  -- L57: _rec(0, num_vars, &dnf_internal)
-  pure (← Bdd_mk_dnf___rec fuel 0 num_vars dnf_internal)
-
-/-- `BddVariableSet::num_vars` — src/_impl_bdd_variable_set.rs:65 -/
-def BddVariableSet_num_vars (self_ : Nat × Array String × Std.HashMap String Nat) : Nat :=
-  self_.1
-
-/-- `Bdd::mk_cnf::_rec` — src/_impl_bdd/_impl_cnf.rs:10 -/
-def Bdd_mk_cnf___rec (fuel : Nat) (var : Nat) (ctx : Nat × Array String × Std.HashMap String Nat) (cnf : Array (Array (Option Bool))) : Outcome Arr :=
-  match fuel with
-  | 0 => Outcome.panic "fuel"
-  | fuel + 1 => do
-    let mut var := var
-    -- L11: loop {
-    for _ in [0:fuel] do
-      -- L12: if cnf.is_empty() {
-      if cnf.isEmpty then
-        -- L13: return ctx.mk_true();
-        return BddVariableSet_mk_true ctx
-      -- L15: if var == ctx.num_vars() || cnf.len() == 1 {
-      if (var == (BddVariableSet_num_vars ctx)) || (cnf.size == 1) then
-        -- L16: let c = cnf[0];
-        let c : Array (Option Bool) := (← Rust.idx cnf 0)
-        -- L18: for cx in &cnf[1..] {
-        for cx in (← Rust.sliceFrom cnf 1) do
-          -- L19: assert_eq!(*cx, c);
-          if !(Rust.pvalEq cx c) then Outcome.panic "assertion failed: assert_eq!(*cx, c);"
-        -- L21: return ctx.mk_disjunctive_clause(c);
-        return (← BddVariableSet_mk_disjunctive_clause ctx c)
-      -- L26: assert!(var < ctx.num_vars);
-      if !(decide (var < ctx.1)) then Outcome.panic "assertion failed: assert!(var < ctx.num_vars);"
-      -- L28: let variable = BddVariable(var);
-      let variable_ := var
-      -- L29: let should_branch = cnf.iter().any(|val| val.has_value(variable));
-      let mut any1__ := false
-      for val in cnf do
-        if (← BddPartialValuation_has_value val variable_) then
-          any1__ := true
-          break
-      let should_branch := any1__
-      -- L30: if !should_branch {
-      if !should_branch then
-        -- L31: var += 1;
-        var := var + 1
-        -- L32: continue;
-        continue
-      -- L35: let mut dont_care = Vec::new();
-      let mut dont_care : Array (Array (Option Bool)) := #[]
-      -- L36: let mut has_true = Vec::new();
-      let mut has_true : Array (Array (Option Bool)) := #[]
-      -- L37: let mut has_false = Vec::new();
-      let mut has_false : Array (Array (Option Bool)) := #[]
-      -- L39: for c in cnf {
-      for c in cnf do
-        -- L40: match c.get_value(BddVariable(var)) {
-        match (← BddPartialValuation_get_value c var) with
-        | none =>
-          dont_care := dont_care.push c
-        | some true =>
-          has_true := has_true.push c
-        | some false =>
-          has_false := has_false.push c
-      -- L47: let dont_care = _rec(var + 1, ctx, &dont_care);
-      let dont_care_1 : Arr := (← Bdd_mk_cnf___rec fuel (var + 1) ctx dont_care)
-      -- L48: let has_true = _rec(var + 1, ctx, &has_true);
-      let has_true_2 : Arr := (← Bdd_mk_cnf___rec fuel (var + 1) ctx has_true)
-      -- L49: let has_false = _rec(var + 1, ctx, &has_false);
-      let has_false_3 : Arr := (← Bdd_mk_cnf___rec fuel (var + 1) ctx has_false)
-      -- L51: return dont_care.and(&has_true).and(&has_false);
-      return (← Bdd_and fuel (← Bdd_and fuel dont_care_1 has_true_2) has_false_3)
-    -- fuel exhausted before the `loop` of L11 was left?
-    Outcome.panic "fuel"
-
-/-- `Bdd::mk_cnf` — src/_impl_bdd/_impl_cnf.rs:9 -/
-def Bdd_mk_cnf (fuel : Nat) (ctx : Nat × Array String × Std.HashMap String Nat) (cnf : Array (Array (Option Bool))) : Outcome Arr := do
-  -- L55: let cnf_internal = Vec::from_iter(cnf.iter());
-  let cnf_internal : Array (Array (Option Bool)) := cnf
-  -- L56: _rec(0, ctx, &cnf_internal)
-  pure (← Bdd_mk_cnf___rec fuel 0 ctx cnf_internal)
-
-/-- `BddVariableSet::mk_dnf` — src/_impl_bdd_variable_set.rs:235 -/
-def BddVariableSet_mk_dnf (fuel : Nat) (self_ : Nat × Array String × Std.HashMap String Nat) (dnf : Array (Array (Option Bool))) : Outcome Arr := do
-  -- L236: Bdd::mk_dnf(self.num_vars, dnf)
-  pure (← Bdd_mk_dnf fuel self_.1 dnf)
-
-/-- `BddVariableSet::mk_cnf` — src/_impl_bdd_variable_set.rs:228 -/
-def BddVariableSet_mk_cnf (fuel : Nat) (self_ : Nat × Array String × Std.HashMap String Nat) (cnf : Array (Array (Option Bool))) : Outcome Arr := do
-  -- L229: Bdd::mk_cnf(self, cnf)
-  pure (← Bdd_mk_cnf fuel self_ cnf)
-
-/-- `Bdd::_to_optimized_dnf::_rec` — src/_impl_bdd/_impl_dnf.rs:215 (returns the updated `&mut` arguments: partial_clause, results) -/
-def Bdd__to_optimized_dnf___rec {E : Type} (fuel : Nat) (bdd : Arr) (partial_clause : Array (Option Bool)) (results : Array (Array (Option Bool))) (interrupt : Array (Array (Option Bool)) → Except E Unit) : Outcome (Except E Unit × Array (Option Bool) × Array (Array (Option Bool))) :=
-  match fuel with
-  | 0 => Outcome.panic "fuel"
-  | fuel + 1 => do
-    let mut partial_clause := partial_clause
-    let mut results := results
-    -- L221: if bdd.is_false() {
-    if Bdd_is_false bdd then
-      -- L222: return Ok(());
-      return (Except.ok (), partial_clause, results)
-    -- L224: if bdd.is_true() {
-    if Bdd_is_true bdd then
-      -- L225: results.push(partial_clause.clone());
-      results := results.push partial_clause
-      -- L226: return Ok(());
-      return (Except.ok (), partial_clause, results)
-    -- L229: let mut support = Vec::from_iter(bdd.support_set());
-    let mut support := (← Bdd_support_set bdd).toArray
-    -- L230: support.sort();
-    support := Rust.sortNat support
-    -- L231: assert!(!support.is_empty());
-    if !(!support.isEmpty) then Outcome.panic "assertion failed: assert!(!support.is_empty());"
-    -- L238: let zero = BigInt::from(0);
-    let zero := 0
-    -- L239: let mut best_core = (support[0], zero.clone());
-    let mut best_core := ((← Rust.idx support 0), zero)
-    -- L240: for var in &support {
-    for var in support do
-      -- L241: interrupt(results)?;
-      let q1__ ← match interrupt results with
-        | .ok v__ => pure v__
-        | .error e__ => return ((.error e__), partial_clause, results)
-      let _ := q1__
-      -- L243: let core = bdd.var_for_all(*var);
-      let core : Arr := (← Bdd_var_for_all fuel bdd var)
-      -- L244: let core_cardinality = core.exact_cardinality();
-      let core_cardinality := (← Bdd_exact_cardinality fuel core)
-      -- L245: if core_cardinality > best_core.1 {
-      if decide (core_cardinality > best_core.2) then
-        -- L246: best_core = (*var, core_cardinality);
-        best_core := (var, core_cardinality)
-    -- L251: let bdd = if best_core.1 != zero {
-    let bdd : Arr ← if best_core.2 != zero then
-        -- L252: let best_core = bdd.var_for_all(best_core.0);
-        let best_core_1 : Arr := (← Bdd_var_for_all fuel bdd best_core.1)
-        -- L253: _rec(&best_core, partial_clause, results, interrupt)?;
-        let (ret2__, mut3__, mut4__) := (← Bdd__to_optimized_dnf___rec fuel best_core_1 partial_clause results interrupt)
-        partial_clause := mut3__
-        results := mut4__
-        let q5__ ← match ret2__ with
-          | .ok v__ => pure v__
-          | .error e__ => return ((.error e__), partial_clause, results)
-        let _ := q5__
-        -- L254: let mut remaining = bdd.and_not(&best_core);
-        let mut remaining : Arr := (← Bdd_and_not fuel bdd best_core_1)
-        -- L258: assert!(!remaining.is_false());
-        if !(!(Bdd_is_false remaining)) then Outcome.panic "assertion failed: assert!(!remaining.is_false());"
-        -- L260: let mut core_support = Vec::from_iter(best_core.support_set());
-        let mut core_support := (← Bdd_support_set best_core_1).toArray
-        -- L261: core_support.sort();
-        core_support := Rust.sortNat core_support
-        -- L265: for var in core_support {
-        for var in core_support do
-          -- L266: let simplified = remaining.var_exists(var);
-          let simplified : Arr := (← Bdd_var_exists fuel remaining var)
-          -- L267: if &simplified.or(&best_core) == bdd {
-          if (← Bdd_or fuel simplified best_core_1) == bdd then
-            -- L268: remaining = simplified;
-            remaining := simplified
-        -- L272: remaining
-        pure remaining
-      else
-        -- L274: bdd.clone()
-        pure bdd
-    -- L277: let mut best = (support[0], usize::MAX);
-    let mut best := ((← Rust.idx support 0), 18446744073709551615)
-    -- L279: for var in &support {
-    for var in support do
-      -- L280: interrupt(results)?;
-      let q6__ ← match interrupt results with
-        | .ok v__ => pure v__
-        | .error e__ => return ((.error e__), partial_clause, results)
-      let _ := q6__
-      -- L281: let bdd_t = bdd.var_restrict(*var, true);
-      let bdd_t : Arr := (← Bdd_var_restrict fuel bdd var true)
-      -- L282: let bdd_f = bdd.var_restrict(*var, false);
-      let bdd_f : Arr := (← Bdd_var_restrict fuel bdd var false)
-      -- L283: let size = bdd_t.size() + bdd_f.size();
-      let size := (Bdd_size bdd_t) + (Bdd_size bdd_f)
-      -- L284: if size < best.1 {
-      if decide (size < best.2) then
-        -- L285: best = (*var, size);
-        best := (var, size)
-    -- L289: let (var, _) = best;
-    let (var, _) := best
-    -- L291: partial_clause[var] = Some(true);
-    partial_clause := Rust.pvalSet partial_clause var (some true)
-    -- L297: )?;
-    let (ret7__, mut8__, mut9__) := (← Bdd__to_optimized_dnf___rec fuel (← Bdd_var_restrict fuel bdd var true) partial_clause results interrupt)
-    partial_clause := mut8__
-    results := mut9__
-    let q10__ ← match ret7__ with
-      | .ok v__ => pure v__
-      | .error e__ => return ((.error e__), partial_clause, results)
-    let _ := q10__
-    -- L298: partial_clause[var] = Some(false);
-    partial_clause := Rust.pvalSet partial_clause var (some false)
-    -- L304: )?;
-    let (ret11__, mut12__, mut13__) := (← Bdd__to_optimized_dnf___rec fuel (← Bdd_var_restrict fuel bdd var false) partial_clause results interrupt)
-    partial_clause := mut12__
-    results := mut13__
-    let q14__ ← match ret11__ with
-      | .ok v__ => pure v__
-      | .error e__ => return ((.error e__), partial_clause, results)
-    let _ := q14__
-    -- L305: partial_clause[var] = None;
-    partial_clause := Rust.pvalSet partial_clause var none
-    -- L307: Ok(())
-    pure (Except.ok (), partial_clause, results)
-
-/-- `Bdd::_to_optimized_dnf` — src/_impl_bdd/_impl_dnf.rs:204 -/
-def Bdd__to_optimized_dnf {E : Type} (fuel : Nat) (self_ : Arr) (interrupt : Array (Array (Option Bool)) → Except E Unit) : Outcome (Except E (Array (Array (Option Bool)))) := do
-  -- L208: if self.is_false() {
-  if Bdd_is_false self_ then
-    -- L209: return Ok(Vec::new());
-    return Except.ok #[]
-  -- L211: if self.is_true() {
-  if Bdd_is_true self_ then
-    -- L212: return Ok(vec![BddPartialValuation::empty()]);
-    return Except.ok #[BddPartialValuation_empty]
-  -- L310: let mut buffer = BddPartialValuation::empty();
-  let mut buffer : Array (Option Bool) := BddPartialValuation_empty
-  -- L311: let mut results = Vec::new();
-  let mut results : Array (Array (Option Bool)) := #[]
-  -- L312: _rec(self, &mut buffer, &mut results, interrupt)?;
-  let (ret1__, mut2__, mut3__) := (← Bdd__to_optimized_dnf___rec fuel self_ buffer results interrupt)
-  buffer := mut2__
-  results := mut3__
-  let q4__ ← match ret1__ with
-    | .ok v__ => pure v__
-    | .error e__ => return (.error e__)
-  let _ := q4__
-  -- L314: Ok(results)
-  pure (Except.ok results)
-
-/-- `Bdd::to_optimized_dnf` — src/_impl_bdd/_impl_dnf.rs:198 -/
-def Bdd_to_optimized_dnf (fuel : Nat) (self_ : Arr) : Outcome (Array (Array (Option Bool))) := do
-  -- L199: self._to_optimized_dnf(&|_dnf| Ok::<(), ()>(())).unwrap()
-  pure (← Rust.unwrapR (← Bdd__to_optimized_dnf fuel self_ (fun _dnf => (Except.ok () : Except Unit Unit))))
-
-/-- `Bdd::cmp_size` — src/_impl_bdd/_impl_sort.rs:8 -/
-def Bdd_cmp_size (a : Arr) (b : Arr) : Ordering :=
-  compare (Bdd_size a) (Bdd_size b)
-
-/-- `Bdd::cmp_cardinality` — src/_impl_bdd/_impl_sort.rs:16 -/
-def Bdd_cmp_cardinality (fuel : Nat) (a : Arr) (b : Arr) : Outcome Ordering := do
-  -- L17: a.exact_cardinality().cmp(&b.exact_cardinality())
-  pure (compare (← Bdd_exact_cardinality fuel a) (← Bdd_exact_cardinality fuel b))
-
-/-- `Bdd::cmp_cardinality_strict` — src/_impl_bdd/_impl_sort.rs:22 -/
-def Bdd_cmp_cardinality_strict (fuel : Nat) (a : Arr) (b : Arr) : Outcome (Option Ordering) := do
-  -- L23: if a.num_vars() == b.num_vars() {
-  if (← Bdd_num_vars a) == (← Bdd_num_vars b) then
-    -- L24: Some(a.exact_cardinality().cmp(&b.exact_cardinality()))
-    pure (some (compare (← Bdd_exact_cardinality fuel a) (← Bdd_exact_cardinality fuel b)))
-  else
-    -- L26: None
-    pure none
-
-/-- `Bdd::cmp_implies` — src/_impl_bdd/_impl_sort.rs:37 -/
-def Bdd_cmp_implies (fuel : Nat) (a : Arr) (b : Arr) : Outcome (Option Ordering) := do
-  -- L38: if a.num_vars() == b.num_vars() {
-  if (← Bdd_num_vars a) == (← Bdd_num_vars b) then
-    -- L39: let a_implies_b = Bdd::binary_op_with_limit(2, a, b, crate::op_function::imp)
-    let v1__ ← match (← Bdd_binary_op_with_limit fuel 2 a b Gen.imp_) with
-      | some v__ => pure v__
-      | none =>
-        pure (Bdd_mk_false (← Bdd_num_vars a))
-    let a_implies_b : Arr := v1__
-    -- L41: let b_implies_a = Bdd::binary_op_with_limit(2, b, a, crate::op_function::imp)
-    let v2__ ← match (← Bdd_binary_op_with_limit fuel 2 b a Gen.imp_) with
-      | some v__ => pure v__
-      | none =>
-        pure (Bdd_mk_false (← Bdd_num_vars a))
-    let b_implies_a : Arr := v2__
-    -- L44: if a_implies_b.is_true() && b_implies_a.is_true() {
-    if (Bdd_is_true a_implies_b) && (Bdd_is_true b_implies_a) then
-      -- L45: Some(Ordering::Equal)
-      pure (some Ordering.eq)
-    else if Bdd_is_true a_implies_b then
-      -- L47: Some(Ordering::Less)
-      pure (some Ordering.lt)
-    else if Bdd_is_true b_implies_a then
-      -- L49: Some(Ordering::Greater)
-      pure (some Ordering.gt)
-    else
-      -- L51: None
-      pure none
-  else
-    -- L54: None
-    pure none
-
-/-- `Bdd::cmp_structural` — src/_impl_bdd/_impl_sort.rs:68 -/
-def Bdd_cmp_structural (a : Arr) (b : Arr) : Ordering :=
-  let a_iter : Array (Nat × Nat × Nat) := a.map (fun it => (it.var, it.low, it.high))
-  let b_iter : Array (Nat × Nat × Nat) := b.map (fun it => (it.var, it.low, it.high))
-  Rust.cmpArrNat3 a_iter b_iter
-
-/-- `BddPartialValuation::cardinality` — src/_impl_bdd_partial_valuation.rs:19 -/
-def BddPartialValuation_cardinality (self_ : Array (Option Bool)) : Outcome Nat := do
-  -- L20: u16::try_from(self.0.iter().filter(|it| it.is_some()).count()).unwrap()
-  pure (← Rust.unwrapR (Rust.u16TryFrom ((self_.filter (fun it => it.isSome)).size)))
-
-/-- `BddPartialValuation::last_fixed_variable` — src/_impl_bdd_partial_valuation.rs:25 -/
-def BddPartialValuation_last_fixed_variable (self_ : Array (Option Bool)) : Outcome (Option Nat) := do
-  -- L26: for i in (0..self.0.len()).rev() {
-  for i in (Array.range self_.size).reverse do
-    -- L27: if self.0[i].is_some() {
-    if (← Rust.idx self_ i).isSome then
-      -- L28: return Some(BddVariable(i as u16));
-      return some (Rust.asU16 i)
-  -- L31: None
-  pure none
-
-/-- `BddPartialValuation::extends` — src/_impl_bdd_partial_valuation.rs:97 -/
-def BddPartialValuation_extends (self_ : Array (Option Bool)) (valuation : Array (Option Bool)) : Outcome Bool := do
-  -- L100: for index in 0..valuation.0.len() {
-  for index in [0:valuation.size] do
-    -- L101: let var = BddVariable(index as u16);
-    let var := Rust.asU16 index
-    -- L102: let expected = valuation.get_value(var);
-    let expected : Option Bool := (← BddPartialValuation_get_value valuation var)
-    -- L103: if expected.is_some() && self.get_value(var) != expected {
-    let c1__ ← if expected.isSome then
-      pure ((← BddPartialValuation_get_value self_ var) != expected)
-      else pure false
-    if c1__ then
-      -- L104: return false;
-      return false
-  -- L108: true
-  pure true
-
-/-- `BddPartialValuation::eq` — src/_impl_bdd_partial_valuation.rs:144 -/
-def BddPartialValuation_eq (self_ : Array (Option Bool)) (other : Array (Option Bool)) : Outcome Bool := do
-  -- L145: let min_len = min(self.0.len(), other.0.len());
-  let min_len := min self_.size other.size
-  -- L146: for i in 0..min_len {
-  for i in [0:min_len] do
-    -- L147: if self.0[i] != other.0[i] {
-    if (← Rust.idx self_ i) != (← Rust.idx other i) then
-      -- L148: return false;
-      return false
-  -- L151: for j in min_len..self.0.len() {
-  for j in [min_len:self_.size] do
-    -- L152: if self.0[j].is_some() {
-    if (← Rust.idx self_ j).isSome then
-      -- L153: return false;
-      return false
-  -- L156: for j in min_len..other.0.len() {
-  for j in [min_len:other.size] do
-    -- L157: if other.0[j].is_some() {
-    if (← Rust.idx other j).isSome then
-      -- L158: return false;
-      return false
-  -- L161: true
-  pure true
-
-/-- `BddPartialValuation::hash` — src/_impl_bdd_partial_valuation.rs:168 (returns the updated `&mut` arguments: state) -/
-def BddPartialValuation_hash (self_ : Array (Option Bool)) (state : Array (Nat × Nat)) : Outcome (Array (Nat × Nat)) := do
-  let mut state := state
-  -- L169: for (var, value) in self.0.iter().enumerate() {
-  for (var, value) in Rust.enumerate self_ do
-    -- L170: if let Some(value) = value {
-    match value with
-    | some value =>
-      -- L171: state.write_usize(var);
-      state := state.push (8, var)
-      -- L172: state.write_u8(u8::from(*value))
-      state := state.push (1, (if value then 1 else 0))
-    | _ =>
-      pure ()
-  pure state
-
-/-- `BddPartialValuation::from` — src/_impl_bdd_partial_valuation.rs:119 -/
-def BddPartialValuation_from (value : Array Bool) : Array (Option Bool) :=
-  value.map some
-
-/-- `BddValuation::extends` — src/_impl_bdd_valuation.rs:78 -/
-def BddValuation_extends (self_ : Array Bool) (valuation : Array (Option Bool)) : Outcome Bool := do
-  -- L79: for var_id in 0..self.num_vars() {
-  for var_id in [0:BddValuation_num_vars self_] do
-    -- L80: let var = BddVariable(var_id);
-    let var := var_id
-    -- L81: if let Some(value) = valuation.get_value(var) {
-    match (← BddPartialValuation_get_value valuation var) with
-    | some value =>
-      -- L82: if value != self.value(var) {
-      if value != (← BddValuation_value self_ var) then
-        -- L83: return false;
-        return false
-    | _ =>
-      pure ()
-  -- L88: true
-  pure true
-
-/-- `BddValuation::to_values` — src/_impl_bdd_valuation.rs:51 -/
-def BddValuation_to_values (self_ : Array Bool) : Outcome (Array (Nat × Bool)) := do
-  -- L61: .collect::<Vec<_>>()
-  let mut map2__ := #[]
-  for (i, v) in Rust.enumerate self_ do
-    let v3__ ← do
-        -- L56: let Ok(i) = u16::try_from(i) else {
-        let .ok i := Rust.u16TryFrom i | do
-            -- L57: unreachable!("BddValuation is limited to u16::MAX values.")
-            Outcome.panic "BddValuation is limited to u16::MAX values."
-        -- L59: (BddVariable(i), *v)
-        pure (i, v)
-    map2__ := map2__.push v3__
-  pure map2__
-
-/-- `BddValuation::try_from` — src/_impl_bdd_valuation.rs:209 -/
-def BddValuation_try_from (value : Array (Option Bool)) : Outcome (Except Unit (Array Bool)) := do
-  -- L212: let Ok(num_vars) = u16::try_from(value.0.len()) else {
-  let .ok num_vars := Rust.u16TryFrom value.size | do
-      -- L213: return Err(());
-      return Except.error ()
-  -- L215: let mut result = BddValuation::all_false(num_vars);
-  let mut result : Array Bool := BddValuation_all_false num_vars
-  -- L216: for var_id in 0..result.num_vars() {
-  for var_id in [0:BddValuation_num_vars result] do
-    -- L217: let var = BddVariable(var_id);
-    let var := var_id
-    -- L218: if let Some(value) = value.get_value(var) {
-    match (← BddPartialValuation_get_value value var) with
-    | some value =>
-      -- L219: result.set_value(var, value);
-      result := (← BddValuation_set_value result var value)
-    | _ =>
-      -- L221: return Err(());
-      return Except.error ()
-  -- L225: Ok(result)
-  pure (Except.ok result)
-
-/-- `Bdd::from` — src/_impl_bdd_valuation.rs:183 -/
-def Bdd_from (valuation : Array Bool) : Outcome Arr := do
-  -- L184: let mut bdd = Bdd::mk_true(valuation.num_vars());
-  let mut bdd : Arr := Bdd_mk_true (BddValuation_num_vars valuation)
-  -- L185: for i_var in (0..valuation.num_vars()).rev() {
-  for i_var in (Array.range (BddValuation_num_vars valuation)).reverse do
-    -- L186: let var = BddVariable(i_var);
-    let var := i_var
-    -- L187: let is_true = valuation.value(var);
-    let is_true := (← BddValuation_value valuation var)
-    -- L188: let low_link = if is_true {
-    let low_link ← if is_true then
-        -- L189: BddPointer::zero()
-        pure BddPointer_zero
-      else
-        -- L191: bdd.root_pointer()
-        pure (← Bdd_root_pointer bdd)
-    -- L193: let high_link = if is_true {
-    let high_link ← if is_true then
-        -- L194: bdd.root_pointer()
-        pure (← Bdd_root_pointer bdd)
-      else
-        -- L196: BddPointer::zero()
-        pure BddPointer_zero
-    -- L198: bdd.push_node(BddNode::mk_node(var, low_link, high_link));
-    bdd := Bdd_push_node bdd (BddNode_mk_node var low_link high_link)
-  -- L200: bdd
-  pure bdd
-
-/-- `BddVariable::to_le_bytes` — src/_impl_bdd_variable.rs:12 -/
-def BddVariable_to_le_bytes (self_ : Nat) : Array Nat :=
-  Rust.toLeBytes 2 self_
-
-/-- `BddPointer::to_le_bytes` — src/_impl_bdd_pointer.rs:74 -/
-def BddPointer_to_le_bytes (self_ : Nat) : Array Nat :=
-  Rust.toLeBytes 4 self_
-
-/-- `Bdd::write_as_bytes` — src/_impl_bdd/_impl_serialisation.rs:42 (returns the updated `&mut` arguments: output) -/
-def Bdd_write_as_bytes (self_ : Arr) (output : Rust.Writer) : Outcome (Except Rust.IoError Unit × Rust.Writer) := do
-  let mut output := output
-  -- L43: for node in self.nodes() {
-  for node in Bdd_nodes self_ do
-    -- L44: output.write_all(&node.var.to_le_bytes())?;
-    let (res1__, wr2__) := Rust.writeAll output (BddVariable_to_le_bytes node.var)
-    output := wr2__
-    let q3__ ← match res1__ with
-      | .ok v__ => pure v__
-      | .error e__ => return ((.error e__), output)
-    let _ := q3__
-    -- L45: output.write_all(&node.low_link.to_le_bytes())?;
-    let (res4__, wr5__) := Rust.writeAll output (BddPointer_to_le_bytes node.low)
-    output := wr5__
-    let q6__ ← match res4__ with
-      | .ok v__ => pure v__
-      | .error e__ => return ((.error e__), output)
-    let _ := q6__
-    -- L46: output.write_all(&node.high_link.to_le_bytes())?;
-    let (res7__, wr8__) := Rust.writeAll output (BddPointer_to_le_bytes node.high)
-    output := wr8__
-    let q9__ ← match res7__ with
-      | .ok v__ => pure v__
-      | .error e__ => return ((.error e__), output)
-    let _ := q9__
-  -- L48: Ok(())
-  pure (Except.ok (), output)
-
-/-- `BddVariable::from_le_bytes` — src/_impl_bdd_variable.rs:17 -/
-def BddVariable_from_le_bytes (bytes : Array Nat) : Nat :=
-  Rust.fromLeBytes bytes
-
-/-- `BddPointer::from_le_bytes` — src/_impl_bdd_pointer.rs:79 -/
-def BddPointer_from_le_bytes (bytes : Array Nat) : Nat :=
-  Rust.fromLeBytes bytes
-
-/-- `Bdd::read_as_bytes` — src/_impl_bdd/_impl_serialisation.rs:52 (returns the updated `&mut` arguments: input) -/
-def Bdd_read_as_bytes (fuel : Nat) (input : Rust.Reader) : Outcome (Except Rust.IoError Arr × Rust.Reader) := do
-  let mut input := input
-  -- L53: let mut result = Vec::new();
-  let mut result : Array Node := #[]
-  -- L54: let mut buf = [0u8; 10];
-  let mut buf : Array Nat := Rust.vecRepeat 0 10
-  -- L55: loop {
-  for _ in [0:fuel] do
-    -- L59: match input.read_exact(&mut buf) {
-    let (res1__, rd2__, buf3__) := Rust.readExact input buf
-    input := rd2__
-    buf := buf3__
-    match res1__ with
-    | .ok _ =>
-      pure ()
-    | .error e =>
-      -- L62: return if e.kind() == ErrorKind::UnexpectedEof {
-      if e.kind == Rust.ErrorKind.unexpectedEof then
-        -- L63: Ok(Bdd(result))
-        return (Except.ok result, input)
-      else
-        -- L65: Err(e)
-        return (Except.error e, input)
-    -- L70: result.push(BddNode::mk_node(
-    result := result.push (BddNode_mk_node (BddVariable_from_le_bytes #[(← Rust.idx buf 0), (← Rust.idx buf 1)]) (BddPointer_from_le_bytes #[(← Rust.idx buf 2), (← Rust.idx buf 3), (← Rust.idx buf 4), (← Rust.idx buf 5)]) (BddPointer_from_le_bytes #[(← Rust.idx buf 6), (← Rust.idx buf 7), (← Rust.idx buf 8), (← Rust.idx buf 9)]))
-  -- fuel exhausted before the `loop` of L55 was left?
-  Outcome.panic "fuel"
-
-/-- `Bdd::to_bytes` — src/_impl_bdd/_impl_serialisation.rs:84 -/
-def Bdd_to_bytes (self_ : Arr) : Outcome (Array Nat) := do
-  -- L85: let mut buffer = Vec::new();
-  let mut buffer : Array Nat := #[]
-  -- L87: .expect("Error writing bytes.");
-  let (ret1__, mut2__) := (← Bdd_write_as_bytes self_ (Rust.Writer.ofVec buffer))
-  buffer := mut2__.out
-  Rust.unwrapR ret1__
-  -- L88: buffer
-  pure buffer
-
-/-- `Bdd::from_bytes` — src/_impl_bdd/_impl_serialisation.rs:92 (returns the updated `&mut` arguments: data) -/
-def Bdd_from_bytes (fuel : Nat) (data : Array Nat) : Outcome (Arr × Array Nat) := do
-  let mut data := data
-  -- L93: Bdd::read_as_bytes(data).expect("Error reading bytes.")
-  let (ret1__, mut2__) := (← Bdd_read_as_bytes fuel (Rust.Reader.ofSlice data))
-  data := mut2__.data.toArray
-  pure ((← Rust.unwrapR ret1__), data)
-
-end B.Gen.Algo2
+namespace B.Gen
+end B.Gen
+-- BROKEN TIE: rust2lean: src/_impl_bdd_variable_set.rs:79 (fn BddVariableSet::var_by_name): `.find()` on an iterator in hash order
